@@ -70,125 +70,684 @@ static char *xalloc(unsigned long n) { for (unsigned long k = 0; k <= N + 2; ++k
   for (int vf_j_##name = 0; vf_j_##name < (MAX); ++vf_j_##name) __CPROVER_assume((unsigned long)vf_j_##name >= (unsigned long)(len) || name##_in[vf_j_##name] != 0)
 #define POST(s, expect, what) VF_ASSERT(WF(s), "C04: wf after " what ": size() <= capacity() and data()[size()] == 0"); VF_ASSERT(view_eq(view_of(&(s)), (expect)), "C04: " what)
 #define CAPACITY_UNCHANGED(v) VF_ASSERT(s_capacity(&(v)) == N && s_max_size(&(v)) == N, "capacity() and max_size() are always N")
+/* operands by value: (n, chars) of a substring; sp_signflip = witness class of C04_compare_signed_char */
+typedef struct { unsigned long n; char a[N + 2]; } seq_t;
+static seq_t seq_sub(const char *p, unsigned long n, unsigned long pos, unsigned long cnt) { seq_t r; r.n = pos <= n ? umin(cnt, n - pos) : 0; for (int j = 0; j < N + 2; ++j) r.a[j] = (unsigned long)j < r.n ? p[pos + (unsigned long)j] : 0; return r; }
+static int sp_cmpq(seq_t x, seq_t y) { return sp_cmp(x.a, x.n, y.a, y.n); }
+static _Bool sp_signflip(seq_t x, seq_t y) { for (int i = 0; i < N + 2; ++i) { if ((unsigned long)i >= x.n || (unsigned long)i >= y.n) break; if (x.a[i] != y.a[i]) return (x.a[i] < 0) != (y.a[i] < 0); } return 0; }
+static _Bool sp_has_inner_nul(seq_t x) { for (int i = 1; i < N + 2; ++i) if ((unsigned long)i < x.n && x.a[i] == 0) return 1; return 0; }
+#define CSTR_ASSUME(arr, len, MAX) do { __CPROVER_assume(arr[len] == 0); for (int vf_j = 0; vf_j < (MAX); ++vf_j) __CPROVER_assume((unsigned long)vf_j >= (unsigned long)(len) || arr[vf_j] != 0); } while (0)
+#define UNCHANGED(s, o) VF_ASSERT(WF(s) && view_eq(view_of(&(s)), (o)), "a const member function leaves *this unchanged")
 
-/*@GROUP name=default_ctor props=C04,C02 kind=K unwind=21 when=VF_N<=16@*/
-void h_default_ctor(void) { VF_INPUT(S, s); /* indeterminate storage */ s_ctor_default(&s);
+/*@COMMON@*/
+#define H_DEFAULT_CTOR(NAME, KNOWN) void NAME(void) { VF_INPUT(S, s); /* indeterminate storage */ s_ctor_default(&s); \
   POST(s, sp_empty(), "basic_inplace_string(): empty"); VF_ASSERT(s_size(&s) == 0 && s_empty(&s), "default construction: size() == 0"); CAPACITY_UNCHANGED(s); VF_REACH(); }
+/*@GROUP name=default_ctor props=C04,C02 kind=K unwind=12 when=VF_N<=7@*/
+H_DEFAULT_CTOR(h_default_ctor, ((void)0))
+/*@GROUP name=default_ctor_u21 props=C04,C02 kind=K unwind=21 when=7<VF_N<=16@*/
+H_DEFAULT_CTOR(h_default_ctor_u21, ((void)0))
+/*@GROUP name=default_ctor_u36 props=C04,C02 kind=K unwind=36 when=VF_N>16 tier=thorough timeout=3000@*/
+H_DEFAULT_CTOR(h_default_ctor_u36, ((void)0))
 
-/*@GROUP name=ctor_fill props=C04,C02,C05 kind=K unwind=21 when=VF_N<=16@*/
-void h_ctor_fill(void) { VF_INPUT(S, s); VF_INPUT(unsigned char, c); VF_INPUT(char, ch); __CPROVER_assume(c <= N); fill_t f = sp_fill(ch);
+/*@COMMON@*/
+#define H_CTOR_FILL(NAME, KNOWN) void NAME(void) { VF_INPUT(S, s); VF_INPUT(unsigned char, c); VF_INPUT(char, ch); __CPROVER_assume(c <= N); fill_t f = sp_fill(ch); \
   s_ctor_n_ch(&s, c, ch); POST(s, sp_splice(sp_empty(), 0, 0, f.a, c), "basic_inplace_string(count, ch): count copies of ch"); VF_REACH(); }
+/*@GROUP name=ctor_fill props=C04,C02,C05 kind=K unwind=12 when=VF_N<=7@*/
+H_CTOR_FILL(h_ctor_fill, ((void)0))
+/*@GROUP name=ctor_fill_u21 props=C04,C02,C05 kind=K unwind=21 when=7<VF_N<=16@*/
+H_CTOR_FILL(h_ctor_fill_u21, ((void)0))
+/*@GROUP name=ctor_fill_u36 props=C04,C02,C05 kind=K unwind=36 when=VF_N>16 tier=thorough timeout=3000@*/
+H_CTOR_FILL(h_ctor_fill_u36, ((void)0))
 
-/*@GROUP name=ctor_buf props=C04,C02,C05 kind=K unwind=21 when=VF_N<=16@*/
-void h_ctor_buf(void) { VF_INPUT(S, s); VF_INPUT(unsigned char, c); VF_INPUT(unsigned char, which); __CPROVER_assume(c <= N); XBUF(char, src, c, N);
-  if (which == 0) s_ctor_ptr_n(&s, src, c); else if (which == 1) s_ctor_range(&s, src, src + c); else s_ctor_sv(&s, src, c);
+/*@COMMON@*/
+#define H_CTOR_BUF(NAME, KNOWN) void NAME(void) { VF_INPUT(S, s); VF_INPUT(unsigned char, c); VF_INPUT(unsigned char, which); __CPROVER_assume(c <= N); XBUF(char, src, c, N); \
+  if (which == 0) s_ctor_ptr_n(&s, src, c); else if (which == 1) s_ctor_range(&s, src, src + c); else s_ctor_sv(&s, src, c); \
   POST(s, sp_splice(sp_empty(), 0, 0, src_in, c), "basic_inplace_string(s, count) / (first, last) / (string_view): exactly the source characters"); VF_REACH(); }
+/*@GROUP name=ctor_buf props=C04,C02,C05 kind=K unwind=12 when=VF_N<=7@*/
+H_CTOR_BUF(h_ctor_buf, ((void)0))
+/*@GROUP name=ctor_buf_u21 props=C04,C02,C05 kind=K unwind=21 when=7<VF_N<=16@*/
+H_CTOR_BUF(h_ctor_buf_u21, ((void)0))
+/*@GROUP name=ctor_buf_u36 props=C04,C02,C05 kind=K unwind=36 when=VF_N>16 tier=thorough timeout=3000@*/
+H_CTOR_BUF(h_ctor_buf_u36, ((void)0))
 
-/*@GROUP name=ctor_cstr props=C04,C02,C05 kind=K unwind=21 when=VF_N<=16@*/
-void h_ctor_cstr(void) { VF_INPUT(S, s); VF_INPUT(unsigned char, c); __CPROVER_assume(c <= N); CSTR(src, c, N);
+/*@COMMON@*/
+#define H_CTOR_CSTR(NAME, KNOWN) void NAME(void) { VF_INPUT(S, s); VF_INPUT(unsigned char, c); __CPROVER_assume(c <= N); CSTR(src, c, N); \
   s_ctor_cstr(&s, src); POST(s, sp_splice(sp_empty(), 0, 0, src_in, c), "basic_inplace_string(char const*): the characters before the terminator"); VF_REACH(); }
+/*@GROUP name=ctor_cstr props=C04,C02,C05 kind=K unwind=12 when=VF_N<=7@*/
+H_CTOR_CSTR(h_ctor_cstr, ((void)0))
+/*@GROUP name=ctor_cstr_u21 props=C04,C02,C05 kind=K unwind=21 when=7<VF_N<=16@*/
+H_CTOR_CSTR(h_ctor_cstr_u21, ((void)0))
+/*@GROUP name=ctor_cstr_u36 props=C04,C02,C05 kind=K unwind=36 when=VF_N>16 tier=thorough timeout=3000@*/
+H_CTOR_CSTR(h_ctor_cstr_u36, ((void)0))
 
-/*@GROUP name=ctor_substr props=C04,C02,C05 kind=K unwind=21 when=VF_N<=16@*/
-void h_ctor_substr(void) { VF_INPUT(S, s); ARB(t); VF_INPUT(unsigned long, pos); VF_INPUT(unsigned long, cnt); VF_INPUT(unsigned char, which); view_t b = view_of(&t); __CPROVER_assume(pos <= b.n);
-  /* [string.cons]: str.substr(pos, n): rlen = min(n, size - pos) */
-  unsigned long rlen = which == 0 ? umin(cnt, b.n - pos) : b.n - pos;
-  if (which == 0) s_ctor_substr(&s, &t, pos, cnt); else s_ctor_substr_pos(&s, &t, pos);
-  POST(s, sp_splice(sp_empty(), 0, 0, b.a + pos, rlen), "basic_inplace_string(str, pos[, n]): the characters [pos, pos + min(n, size - pos)) of str");
+/*@COMMON@*/
+#define H_CTOR_SUBSTR(NAME, KNOWN) void NAME(void) { VF_INPUT(S, s); ARB(t); VF_INPUT(unsigned long, pos); VF_INPUT(unsigned long, cnt); VF_INPUT(unsigned char, which); view_t b = view_of(&t); __CPROVER_assume(pos <= b.n); \
+  /* [string.cons]: str.substr(pos, n): rlen = min(n, size - pos) */ \
+  unsigned long rlen = which == 0 ? umin(cnt, b.n - pos) : b.n - pos; \
+  if (which == 0) s_ctor_substr(&s, &t, pos, cnt); else s_ctor_substr_pos(&s, &t, pos); \
+  POST(s, sp_splice(sp_empty(), 0, 0, b.a + pos, rlen), "basic_inplace_string(str, pos[, n]): the characters [pos, pos + min(n, size - pos)) of str"); \
   VF_ASSERT(view_eq(view_of(&t), b) && WF(t), "the source string is unchanged"); VF_REACH(); }
+/*@GROUP name=ctor_substr props=C04,C02,C05 kind=K unwind=12 when=VF_N<=7@*/
+H_CTOR_SUBSTR(h_ctor_substr, ((void)0))
+/*@GROUP name=ctor_substr_u21 props=C04,C02,C05 kind=K unwind=21 when=7<VF_N<=16@*/
+H_CTOR_SUBSTR(h_ctor_substr_u21, ((void)0))
+/*@GROUP name=ctor_substr_u36 props=C04,C02,C05 kind=K unwind=36 when=VF_N>16 tier=thorough timeout=3000@*/
+H_CTOR_SUBSTR(h_ctor_substr_u36, ((void)0))
 
-/*@GROUP name=ctor_sv_sub props=C04,C02,C05 kind=K unwind=21 when=VF_N<=16@*/
-void h_ctor_sv_sub(void) { VF_INPUT(S, s); VF_INPUT(unsigned char, m); VF_INPUT(unsigned char, pos); VF_INPUT(unsigned long, cnt); __CPROVER_assume(m <= N + 1 && pos <= m); XBUF(char, src, m, N + 1);
-  unsigned long rlen = umin(cnt, m - pos); __CPROVER_assume(rlen <= N);
-  s_ctor_sv_pos_n(&s, src, m, pos, cnt);
+/*@COMMON@*/
+#define H_CTOR_SV_SUB(NAME, KNOWN) void NAME(void) { VF_INPUT(S, s); VF_INPUT(unsigned char, m); VF_INPUT(unsigned char, pos); VF_INPUT(unsigned long, cnt); __CPROVER_assume(m <= N + 1 && pos <= m); XBUF(char, src, m, N + 1); \
+  unsigned long rlen = umin(cnt, m - pos); __CPROVER_assume(rlen <= N); \
+  s_ctor_sv_pos_n(&s, src, m, pos, cnt); \
   POST(s, sp_splice(sp_empty(), 0, 0, src_in + pos, rlen), "basic_inplace_string(sv, pos, n): sv.substr(pos, n)"); VF_REACH(); }
+/*@GROUP name=ctor_sv_sub props=C04,C02,C05 kind=K unwind=12 when=VF_N<=7@*/
+H_CTOR_SV_SUB(h_ctor_sv_sub, ((void)0))
+/*@GROUP name=ctor_sv_sub_u21 props=C04,C02,C05 kind=K unwind=21 when=7<VF_N<=16@*/
+H_CTOR_SV_SUB(h_ctor_sv_sub_u21, ((void)0))
+/*@GROUP name=ctor_sv_sub_u36 props=C04,C02,C05 kind=K unwind=36 when=VF_N>16 tier=thorough timeout=3000@*/
+H_CTOR_SV_SUB(h_ctor_sv_sub_u36, ((void)0))
 
-/*@GROUP name=copy_move props=C04,C02 kind=K unwind=21 when=VF_N<=16@*/
-void h_copy_move(void) { ARB(s); VF_INPUT(S, t); VF_INPUT(unsigned char, which); VF_INPUT(char, x); view_t os = view_of(&s); S *r = &t;
-  if (which == 0) s_copy_ctor(&t, &s);
-  else if (which == 1) { __CPROVER_assume(WF(t)); r = s_copy_assign(&t, &s); }
-  else if (which == 2) s_move_ctor(&t, &s);
-  else if (which == 3) { __CPROVER_assume(WF(t)); r = s_move_assign(&t, &s); }
-  else { __CPROVER_assume(WF(t)); r = s_assign_str(&t, &s); }
-  POST(t, os, "copy/move construction and assignment, assign(str): target == source"); VF_ASSERT(r == &t, "assignment returns *this");
-  VF_ASSERT(WF(s), "source stays well-formed (valid, assignable, destructible)");
-  if (which != 2 && which != 3) { VF_ASSERT(view_eq(view_of(&s), os), "copy leaves the source unchanged");
-    if (SZ(t) > 0) { BUF(t)[0] = x; s_pop_back(&t); } VF_ASSERT(view_eq(view_of(&s), os), "independence: mutating the copy leaves the source unchanged"); }
+/*@COMMON@*/
+#define H_COPY_MOVE(NAME, KNOWN) void NAME(void) { ARB(s); VF_INPUT(S, t); VF_INPUT(unsigned char, which); VF_INPUT(char, x); view_t os = view_of(&s); S *r = &t; \
+  if (which == 0) s_copy_ctor(&t, &s); \
+  else if (which == 1) { __CPROVER_assume(WF(t)); r = s_copy_assign(&t, &s); } \
+  else if (which == 2) s_move_ctor(&t, &s); \
+  else if (which == 3) { __CPROVER_assume(WF(t)); r = s_move_assign(&t, &s); } \
+  else { __CPROVER_assume(WF(t)); r = s_assign_str(&t, &s); } \
+  POST(t, os, "copy/move construction and assignment, assign(str): target == source"); VF_ASSERT(r == &t, "assignment returns *this"); \
+  VF_ASSERT(WF(s), "source stays well-formed (valid, assignable, destructible)"); \
+  if (which != 2 && which != 3) { VF_ASSERT(view_eq(view_of(&s), os), "copy leaves the source unchanged"); \
+    if (SZ(t) > 0) { BUF(t)[0] = x; s_pop_back(&t); } VF_ASSERT(view_eq(view_of(&s), os), "independence: mutating the copy leaves the source unchanged"); } \
   VF_REACH(); }
+/*@GROUP name=copy_move props=C04,C02 kind=K unwind=12 when=VF_N<=7@*/
+H_COPY_MOVE(h_copy_move, ((void)0))
+/*@GROUP name=copy_move_u21 props=C04,C02 kind=K unwind=21 when=7<VF_N<=16@*/
+H_COPY_MOVE(h_copy_move_u21, ((void)0))
+/*@GROUP name=copy_move_u36 props=C04,C02 kind=K unwind=36 when=VF_N>16 tier=thorough timeout=3000@*/
+H_COPY_MOVE(h_copy_move_u36, ((void)0))
 
-/*@GROUP name=self_assign props=C04,C02 kind=K unwind=21 when=VF_N<=16@*/
-void h_self_assign(void) { ARB(s); view_t os = view_of(&s); VF_INPUT(unsigned char, which);
-  if (which == 0) s_copy_assign(&s, &s); else if (which == 1) s_move_assign(&s, &s); else if (which == 2) s_assign_str(&s, &s); else s_swap(&s, &s);
+/*@COMMON@*/
+#define H_SELF_ASSIGN(NAME, KNOWN) void NAME(void) { ARB(s); view_t os = view_of(&s); VF_INPUT(unsigned char, which); \
+  if (which == 0) s_copy_assign(&s, &s); else if (which == 1) s_move_assign(&s, &s); else if (which == 2) s_assign_str(&s, &s); else s_swap(&s, &s); \
   VF_ASSERT(WF(s), "C04: self-assignment / self-swap keeps the object well-formed"); if (which != 1) VF_ASSERT(view_eq(view_of(&s), os), "C04: copy self-assignment, assign(*this) and self-swap keep the contents"); VF_REACH(); }
+/*@GROUP name=self_assign props=C04,C02 kind=K unwind=12 when=VF_N<=7@*/
+H_SELF_ASSIGN(h_self_assign, ((void)0))
+/*@GROUP name=self_assign_u21 props=C04,C02 kind=K unwind=21 when=7<VF_N<=16@*/
+H_SELF_ASSIGN(h_self_assign_u21, ((void)0))
+/*@GROUP name=self_assign_u36 props=C04,C02 kind=K unwind=36 when=VF_N>16 tier=thorough timeout=3000@*/
+H_SELF_ASSIGN(h_self_assign_u36, ((void)0))
 
-/*@GROUP name=assign_fill props=C04,C02,C05 kind=K unwind=21 when=VF_N<=16@*/
-void h_assign_fill(void) { ARB(s); VF_INPUT(unsigned char, c); VF_INPUT(char, ch); VF_INPUT_BOOL(op); fill_t f = sp_fill(ch); S *r;
-  if (op) { c = 1; r = s_opassign_ch(&s, ch); } else { __CPROVER_assume(c <= N); r = s_assign_n_ch(&s, c, ch); }
+/*@COMMON@*/
+#define H_ASSIGN_FILL(NAME, KNOWN) void NAME(void) { ARB(s); VF_INPUT(unsigned char, c); VF_INPUT(char, ch); VF_INPUT_BOOL(op); fill_t f = sp_fill(ch); S *r; \
+  if (op) { c = 1; r = s_opassign_ch(&s, ch); } else { __CPROVER_assume(c <= N); r = s_assign_n_ch(&s, c, ch); } \
   POST(s, sp_splice(sp_empty(), 0, 0, f.a, c), "assign(count, ch) / operator=(ch): count copies of ch"); VF_ASSERT(r == &s, "assign returns *this"); VF_REACH(); }
+/*@GROUP name=assign_fill props=C04,C02,C05 kind=K unwind=12 when=VF_N<=7@*/
+H_ASSIGN_FILL(h_assign_fill, ((void)0))
+/*@GROUP name=assign_fill_u21 props=C04,C02,C05 kind=K unwind=21 when=7<VF_N<=16@*/
+H_ASSIGN_FILL(h_assign_fill_u21, ((void)0))
+/*@GROUP name=assign_fill_u36 props=C04,C02,C05 kind=K unwind=36 when=VF_N>16 tier=thorough timeout=3000@*/
+H_ASSIGN_FILL(h_assign_fill_u36, ((void)0))
 
-/*@GROUP name=assign_buf props=C04,C02,C05 kind=K unwind=21 when=VF_N<=16@*/
-void h_assign_buf(void) { ARB(s); VF_INPUT(unsigned char, c); VF_INPUT(unsigned char, which); __CPROVER_assume(c <= N); XBUF(char, src, c, N); S *r;
-  if (which == 0) r = s_assign_ptr_n(&s, src, c); else if (which == 1) r = s_assign_range(&s, src, src + c); else if (which == 2) r = s_assign_sv(&s, src, c); else r = s_opassign_sv(&s, src, c);
+/*@COMMON@*/
+#define H_ASSIGN_BUF(NAME, KNOWN) void NAME(void) { ARB(s); VF_INPUT(unsigned char, c); VF_INPUT(unsigned char, which); __CPROVER_assume(c <= N); XBUF(char, src, c, N); S *r; \
+  if (which == 0) r = s_assign_ptr_n(&s, src, c); else if (which == 1) r = s_assign_range(&s, src, src + c); else if (which == 2) r = s_assign_sv(&s, src, c); else r = s_opassign_sv(&s, src, c); \
   POST(s, sp_splice(sp_empty(), 0, 0, src_in, c), "assign(s, count) / (first, last) / (string_view), operator=(string_view): exactly the source characters"); VF_ASSERT(r == &s, "assign returns *this"); VF_REACH(); }
+/*@GROUP name=assign_buf props=C04,C02,C05 kind=K unwind=12 when=VF_N<=7@*/
+H_ASSIGN_BUF(h_assign_buf, ((void)0))
+/*@GROUP name=assign_buf_u21 props=C04,C02,C05 kind=K unwind=21 when=7<VF_N<=16@*/
+H_ASSIGN_BUF(h_assign_buf_u21, ((void)0))
+/*@GROUP name=assign_buf_u36 props=C04,C02,C05 kind=K unwind=36 when=VF_N>16 tier=thorough timeout=3000@*/
+H_ASSIGN_BUF(h_assign_buf_u36, ((void)0))
 
-/*@GROUP name=assign_cstr props=C04,C02,C05 kind=K unwind=21 when=VF_N<=16@*/
-void h_assign_cstr(void) { ARB(s); VF_INPUT(unsigned char, c); VF_INPUT_BOOL(op); __CPROVER_assume(c <= N); CSTR(src, c, N); S *r;
-  if (op) r = s_opassign_cstr(&s, src); else r = s_assign_cstr(&s, src);
+/*@COMMON@*/
+#define H_ASSIGN_CSTR(NAME, KNOWN) void NAME(void) { ARB(s); VF_INPUT(unsigned char, c); VF_INPUT_BOOL(op); __CPROVER_assume(c <= N); CSTR(src, c, N); S *r; \
+  if (op) r = s_opassign_cstr(&s, src); else r = s_assign_cstr(&s, src); \
   POST(s, sp_splice(sp_empty(), 0, 0, src_in, c), "assign(char const*) / operator=(char const*): the characters before the terminator"); VF_ASSERT(r == &s, "assign returns *this"); VF_REACH(); }
+/*@GROUP name=assign_cstr props=C04,C02,C05 kind=K unwind=12 when=VF_N<=7@*/
+H_ASSIGN_CSTR(h_assign_cstr, ((void)0))
+/*@GROUP name=assign_cstr_u21 props=C04,C02,C05 kind=K unwind=21 when=7<VF_N<=16@*/
+H_ASSIGN_CSTR(h_assign_cstr_u21, ((void)0))
+/*@GROUP name=assign_cstr_u36 props=C04,C02,C05 kind=K unwind=36 when=VF_N>16 tier=thorough timeout=3000@*/
+H_ASSIGN_CSTR(h_assign_cstr_u36, ((void)0))
 
-/*@GROUP name=assign_sub props=C04,C02,C05 kind=K unwind=21 when=VF_N<=16@*/
-void h_assign_sub(void) { ARB(s); ARB(t); VF_INPUT(unsigned long, pos); VF_INPUT(unsigned long, cnt); VF_INPUT(unsigned char, m); VF_INPUT(unsigned char, which); view_t b = view_of(&t); S *r;
-  __CPROVER_assume(m <= N + 1); XBUF(char, src, m, N + 1);
-  if (which <= 1) { __CPROVER_assume(pos <= b.n); unsigned long rlen = which == 0 ? umin(cnt, b.n - pos) : b.n - pos;
-    r = which == 0 ? s_assign_str_pos_n(&s, &t, pos, cnt) : s_assign_str_pos(&s, &t, pos);
-    POST(s, sp_splice(sp_empty(), 0, 0, b.a + pos, rlen), "assign(str, pos[, n]): str.substr(pos, n)"); VF_ASSERT(view_eq(view_of(&t), b) && WF(t), "the source string is unchanged"); }
-  else { __CPROVER_assume(pos <= m); unsigned long rlen = which == 2 ? umin(cnt, m - pos) : m - pos; __CPROVER_assume(rlen <= N);
-    r = which == 2 ? s_assign_sv_pos_n(&s, src, m, pos, cnt) : s_assign_sv_pos(&s, src, m, pos);
-    POST(s, sp_splice(sp_empty(), 0, 0, src_in + pos, rlen), "assign(sv, pos[, n]): sv.substr(pos, n)"); }
+/*@COMMON@*/
+#define H_ASSIGN_SUB(NAME, KNOWN) void NAME(void) { ARB(s); ARB(t); VF_INPUT(unsigned long, pos); VF_INPUT(unsigned long, cnt); VF_INPUT(unsigned char, m); VF_INPUT(unsigned char, which); view_t b = view_of(&t); S *r; \
+  __CPROVER_assume(m <= N + 1); XBUF(char, src, m, N + 1); \
+  if (which <= 1) { __CPROVER_assume(pos <= b.n); unsigned long rlen = which == 0 ? umin(cnt, b.n - pos) : b.n - pos; \
+    r = which == 0 ? s_assign_str_pos_n(&s, &t, pos, cnt) : s_assign_str_pos(&s, &t, pos); \
+    POST(s, sp_splice(sp_empty(), 0, 0, b.a + pos, rlen), "assign(str, pos[, n]): str.substr(pos, n)"); VF_ASSERT(view_eq(view_of(&t), b) && WF(t), "the source string is unchanged"); } \
+  else { __CPROVER_assume(pos <= m); unsigned long rlen = which == 2 ? umin(cnt, m - pos) : m - pos; __CPROVER_assume(rlen <= N); \
+    r = which == 2 ? s_assign_sv_pos_n(&s, src, m, pos, cnt) : s_assign_sv_pos(&s, src, m, pos); \
+    POST(s, sp_splice(sp_empty(), 0, 0, src_in + pos, rlen), "assign(sv, pos[, n]): sv.substr(pos, n)"); } \
   VF_ASSERT(r == &s, "assign returns *this"); VF_REACH(); }
+/*@GROUP name=assign_sub props=C04,C02,C05 kind=K unwind=12 when=VF_N<=7@*/
+H_ASSIGN_SUB(h_assign_sub, ((void)0))
+/*@GROUP name=assign_sub_u21 props=C04,C02,C05 kind=K unwind=21 when=7<VF_N<=16@*/
+H_ASSIGN_SUB(h_assign_sub_u21, ((void)0))
+/*@GROUP name=assign_sub_u36 props=C04,C02,C05 kind=K unwind=36 when=VF_N>16 tier=thorough timeout=3000@*/
+H_ASSIGN_SUB(h_assign_sub_u36, ((void)0))
 
+/*@COMMON@*/
 /* ---- append: the overloads built on append(count, ch) / append(s, count) CLAMP to the capacity ("maximum up to its capacity"); the ones built on
  * push_back (append(first, last), append(str), operator+=(str)) have the contract size() < capacity() per appended character: they are specified
  * for results that fit, exceeding calls are in viol_grow. */
-/*@GROUP name=append_fill props=C04,C02,C05 kind=K unwind=21 when=VF_N<=16@*/
-void h_append_fill(void) { ARB(s); VF_INPUT(unsigned long, c); VF_INPUT(char, ch); VF_INPUT(unsigned char, which); view_t o = view_of(&s); fill_t f = sp_fill(ch); S *r = &s;
-  if (which == 0) r = s_append_n_ch(&s, c, ch); else if (which == 1) { c = 1; r = s_pluseq_ch(&s, ch); } else { c = 1; __CPROVER_assume(o.n < N); s_push_back(&s, ch); }
-  POST(s, sp_splice(o, o.n, 0, f.a, umin(c, N - o.n)), "append(count, ch) / operator+=(ch) / push_back(ch): min(count, capacity - size) copies of ch are appended, the prefix is unchanged");
+
+/*@COMMON@*/
+#define H_APPEND_FILL(NAME, KNOWN) void NAME(void) { ARB(s); VF_INPUT(unsigned long, c); VF_INPUT(char, ch); VF_INPUT(unsigned char, which); view_t o = view_of(&s); fill_t f = sp_fill(ch); S *r = &s; \
+  if (which == 0) r = s_append_n_ch(&s, c, ch); else if (which == 1) { c = 1; r = s_pluseq_ch(&s, ch); } else { c = 1; __CPROVER_assume(o.n < N); s_push_back(&s, ch); } \
+  POST(s, sp_splice(o, o.n, 0, f.a, umin(c, N - o.n)), "append(count, ch) / operator+=(ch) / push_back(ch): min(count, capacity - size) copies of ch are appended, the prefix is unchanged"); \
   VF_ASSERT(r == &s, "append returns *this"); CAPACITY_UNCHANGED(s); VF_REACH(); }
+/*@GROUP name=append_fill props=C04,C02,C05 kind=K unwind=12 when=VF_N<=7@*/
+H_APPEND_FILL(h_append_fill, ((void)0))
+/*@GROUP name=append_fill_u21 props=C04,C02,C05 kind=K unwind=21 when=7<VF_N<=16@*/
+H_APPEND_FILL(h_append_fill_u21, ((void)0))
+/*@GROUP name=append_fill_u36 props=C04,C02,C05 kind=K unwind=36 when=VF_N>16 tier=thorough timeout=3000@*/
+H_APPEND_FILL(h_append_fill_u36, ((void)0))
 
-/*@GROUP name=append_buf props=C04,C02,C05 kind=K unwind=21 when=VF_N<=16@*/
-void h_append_buf(void) { ARB(s); VF_INPUT(unsigned char, c); VF_INPUT(unsigned char, which); __CPROVER_assume(c <= N + 1); XBUF(char, src, c, N + 1); view_t o = view_of(&s); S *r;
-  if (which == 0) r = s_append_ptr_n(&s, src, c); else if (which == 1) r = s_append_sv(&s, src, c); else r = s_pluseq_sv(&s, src, c);
-  POST(s, sp_splice(o, o.n, 0, src_in, umin(c, N - o.n)), "append(s, count) / (string_view), operator+=(string_view): the first min(count, capacity - size) source characters are appended");
+/*@COMMON@*/
+#define H_APPEND_BUF(NAME, KNOWN) void NAME(void) { ARB(s); VF_INPUT(unsigned char, c); VF_INPUT(unsigned char, which); __CPROVER_assume(c <= N + 1); XBUF(char, src, c, N + 1); view_t o = view_of(&s); S *r; \
+  if (which == 0) r = s_append_ptr_n(&s, src, c); else if (which == 1) r = s_append_sv(&s, src, c); else r = s_pluseq_sv(&s, src, c); \
+  POST(s, sp_splice(o, o.n, 0, src_in, umin(c, N - o.n)), "append(s, count) / (string_view), operator+=(string_view): the first min(count, capacity - size) source characters are appended"); \
   VF_ASSERT(r == &s, "append returns *this"); VF_REACH(); }
+/*@GROUP name=append_buf props=C04,C02,C05 kind=K unwind=12 when=VF_N<=7@*/
+H_APPEND_BUF(h_append_buf, ((void)0))
+/*@GROUP name=append_buf_u21 props=C04,C02,C05 kind=K unwind=21 when=7<VF_N<=16@*/
+H_APPEND_BUF(h_append_buf_u21, ((void)0))
+/*@GROUP name=append_buf_u36 props=C04,C02,C05 kind=K unwind=36 when=VF_N>16 tier=thorough timeout=3000@*/
+H_APPEND_BUF(h_append_buf_u36, ((void)0))
 
-/*@GROUP name=append_range props=C04,C02,C05 kind=K unwind=21 when=VF_N<=16 objbits=12@*/
-void h_append_range(void) { ARB(s); VF_INPUT(unsigned char, c); view_t o = view_of(&s); __CPROVER_assume(c <= N - o.n); XBUF(char, src, c, N);
-  S *r = s_append_range(&s, src, src + c);
+/*@COMMON@*/
+#define H_APPEND_RANGE(NAME, KNOWN) void NAME(void) { ARB(s); VF_INPUT(unsigned char, c); view_t o = view_of(&s); __CPROVER_assume(c <= N - o.n); XBUF(char, src, c, N); \
+  S *r = s_append_range(&s, src, src + c); \
   POST(s, sp_splice(o, o.n, 0, src_in, c), "append(first, last): the source range is appended"); VF_ASSERT(r == &s, "append returns *this"); VF_REACH(); }
+/*@GROUP name=append_range props=C04,C02,C05 kind=K unwind=12 when=VF_N<=7 objbits=12 unwindset=_ZN3etl4fillIPccEEvT_S2_RKT0_.0:3@*/
+H_APPEND_RANGE(h_append_range, ((void)0))
+/*@GROUP name=append_range_u21 props=C04,C02,C05 kind=K unwind=21 when=7<VF_N<=16 objbits=12 unwindset=_ZN3etl4fillIPccEEvT_S2_RKT0_.0:3@*/
+H_APPEND_RANGE(h_append_range_u21, ((void)0))
+/*@GROUP name=append_range_u36 props=C04,C02,C05 kind=K unwind=36 when=VF_N>16 objbits=12 unwindset=_ZN3etl4fillIPccEEvT_S2_RKT0_.0:3 tier=thorough timeout=3000@*/
+H_APPEND_RANGE(h_append_range_u36, ((void)0))
 
-/*@GROUP name=append_cstr props=C04,C02,C05 kind=K unwind=21 when=VF_N<=16@*/
-void h_append_cstr(void) { ARB(s); VF_INPUT(unsigned char, c); VF_INPUT_BOOL(op); __CPROVER_assume(c <= N + 1); CSTR(src, c, N + 1); view_t o = view_of(&s); S *r;
-  if (op) r = s_pluseq_cstr(&s, src); else r = s_append_cstr(&s, src);
+/*@COMMON@*/
+#define H_APPEND_CSTR(NAME, KNOWN) void NAME(void) { ARB(s); VF_INPUT(unsigned char, c); VF_INPUT_BOOL(op); __CPROVER_assume(c <= N + 1); CSTR(src, c, N + 1); view_t o = view_of(&s); S *r; \
+  if (op) r = s_pluseq_cstr(&s, src); else r = s_append_cstr(&s, src); \
   POST(s, sp_splice(o, o.n, 0, src_in, umin(c, N - o.n)), "append(char const*) / operator+=(char const*): the first min(strlen, capacity - size) characters are appended"); VF_ASSERT(r == &s, "append returns *this"); VF_REACH(); }
+/*@GROUP name=append_cstr props=C04,C02,C05 kind=K unwind=12 when=VF_N<=7@*/
+H_APPEND_CSTR(h_append_cstr, ((void)0))
+/*@GROUP name=append_cstr_u21 props=C04,C02,C05 kind=K unwind=21 when=7<VF_N<=16@*/
+H_APPEND_CSTR(h_append_cstr_u21, ((void)0))
+/*@GROUP name=append_cstr_u36 props=C04,C02,C05 kind=K unwind=36 when=VF_N>16 tier=thorough timeout=3000@*/
+H_APPEND_CSTR(h_append_cstr_u36, ((void)0))
 
-/*@GROUP name=append_str props=C04,C02,C05 kind=K unwind=21 when=VF_N<=16 objbits=12@*/
-void h_append_str(void) { ARB(s); ARB(t); VF_INPUT(unsigned char, pos); VF_INPUT(unsigned long, cnt); VF_INPUT(unsigned char, which); view_t o = view_of(&s), b = view_of(&t); S *r;
-  if (which <= 1) { pos = 0; cnt = NPOS; } else if (which >= 3) cnt = NPOS;
-  __CPROVER_assume(pos <= b.n); unsigned long rlen = umin(cnt, b.n - pos); __CPROVER_assume(rlen <= N - o.n);
-  if (which == 0) r = s_append_str(&s, &t); else if (which == 1) r = s_pluseq_str(&s, &t); else if (which == 2) r = s_append_str_pos_n(&s, &t, pos, cnt); else r = s_append_str_pos(&s, &t, pos);
-  POST(s, sp_splice(o, o.n, 0, b.a + pos, rlen), "append(str[, pos[, n]]) / operator+=(str): str.substr(pos, n) is appended"); VF_ASSERT(r == &s, "append returns *this");
+/*@COMMON@*/
+#define H_APPEND_STR(NAME, KNOWN) void NAME(void) { ARB(s); ARB(t); VF_INPUT_BOOL(op); view_t o = view_of(&s), b = view_of(&t); __CPROVER_assume(b.n <= N - o.n); \
+  S *r = op ? s_pluseq_str(&s, &t) : s_append_str(&s, &t); \
+  POST(s, sp_splice(o, o.n, 0, b.a, b.n), "append(str) / operator+=(str): str is appended"); VF_ASSERT(r == &s, "append returns *this"); \
   VF_ASSERT(view_eq(view_of(&t), b) && WF(t), "the source string is unchanged"); VF_REACH(); }
+/*@GROUP name=append_str props=C04,C02,C05 kind=K unwind=12 when=VF_N<=7 objbits=12 unwindset=_ZN3etl4fillIPccEEvT_S2_RKT0_.0:3@*/
+H_APPEND_STR(h_append_str, ((void)0))
+/*@GROUP name=append_str_u21 props=C04,C02,C05 kind=K unwind=21 when=7<VF_N<=16 objbits=12 unwindset=_ZN3etl4fillIPccEEvT_S2_RKT0_.0:3@*/
+H_APPEND_STR(h_append_str_u21, ((void)0))
+/*@GROUP name=append_str_u36 props=C04,C02,C05 kind=K unwind=36 when=VF_N>16 objbits=12 unwindset=_ZN3etl4fillIPccEEvT_S2_RKT0_.0:3 tier=thorough timeout=3000@*/
+H_APPEND_STR(h_append_str_u36, ((void)0))
 
-/*@GROUP name=append_sv_sub props=C04,C02,C05 kind=K unwind=21 when=VF_N<=16@*/
-void h_append_sv_sub(void) { ARB(s); VF_INPUT(unsigned char, m); VF_INPUT(unsigned char, pos); VF_INPUT(unsigned long, cnt); __CPROVER_assume(m <= N + 1 && pos <= m); XBUF(char, src, m, N + 1); view_t o = view_of(&s);
-  unsigned long rlen = umin(cnt, m - pos); S *r = s_append_sv_pos_n(&s, src, m, pos, cnt);
+/*@COMMON@*/
+#define H_APPEND_STR_SUB(NAME, KNOWN) void NAME(void) { ARB(s); ARB(t); VF_INPUT(unsigned char, pos); VF_INPUT(unsigned long, cnt); VF_INPUT_BOOL(dflt); view_t o = view_of(&s), b = view_of(&t); \
+  if (dflt) cnt = NPOS; __CPROVER_assume(pos <= b.n); unsigned long rlen = umin(cnt, b.n - pos); __CPROVER_assume(rlen <= N - o.n); \
+  S *r = dflt ? s_append_str_pos(&s, &t, pos) : s_append_str_pos_n(&s, &t, pos, cnt); \
+  POST(s, sp_splice(o, o.n, 0, b.a + pos, rlen), "append(str, pos[, n]): str.substr(pos, n) is appended"); VF_ASSERT(r == &s, "append returns *this"); \
+  VF_ASSERT(view_eq(view_of(&t), b) && WF(t), "the source string is unchanged"); VF_REACH(); }
+/*@GROUP name=append_str_sub props=C04,C02,C05 kind=K unwind=12 when=VF_N<=7 objbits=12 unwindset=_ZN3etl4fillIPccEEvT_S2_RKT0_.0:3@*/
+H_APPEND_STR_SUB(h_append_str_sub, ((void)0))
+/*@GROUP name=append_str_sub_u21 props=C04,C02,C05 kind=K unwind=21 when=7<VF_N<=16 solver=kissat objbits=12 unwindset=_ZN3etl4fillIPccEEvT_S2_RKT0_.0:3@*/
+H_APPEND_STR_SUB(h_append_str_sub_u21, ((void)0))
+/*@GROUP name=append_str_sub_u36 props=C04,C02,C05 kind=K unwind=36 when=VF_N>16 objbits=12 unwindset=_ZN3etl4fillIPccEEvT_S2_RKT0_.0:3 tier=thorough timeout=3000@*/
+H_APPEND_STR_SUB(h_append_str_sub_u36, ((void)0))
+
+/*@COMMON@*/
+#define H_APPEND_SV_SUB(NAME, KNOWN) void NAME(void) { ARB(s); VF_INPUT(unsigned char, m); VF_INPUT(unsigned char, pos); VF_INPUT(unsigned long, cnt); __CPROVER_assume(m <= N + 1 && pos <= m); XBUF(char, src, m, N + 1); view_t o = view_of(&s); \
+  unsigned long rlen = umin(cnt, m - pos); S *r = s_append_sv_pos_n(&s, src, m, pos, cnt); \
   POST(s, sp_splice(o, o.n, 0, src_in + pos, umin(rlen, N - o.n)), "append(sv, pos, n): the first min(rlen, capacity - size) characters of sv.substr(pos, n) are appended"); VF_ASSERT(r == &s, "append returns *this"); VF_REACH(); }
+/*@GROUP name=append_sv_sub props=C04,C02,C05 kind=K unwind=12 when=VF_N<=7@*/
+H_APPEND_SV_SUB(h_append_sv_sub, ((void)0))
+/*@GROUP name=append_sv_sub_u21 props=C04,C02,C05 kind=K unwind=21 when=7<VF_N<=16 solver=kissat@*/
+H_APPEND_SV_SUB(h_append_sv_sub_u21, ((void)0))
+/*@GROUP name=append_sv_sub_u36 props=C04,C02,C05 kind=K unwind=36 when=VF_N>16 tier=thorough timeout=3000@*/
+H_APPEND_SV_SUB(h_append_sv_sub_u36, ((void)0))
 
-/*@GROUP name=append_sv_pos props=C04,C02,C05 kind=K unwind=21 when=VF_N<=16@*/
-void h_append_sv_pos(void) { ARB(s); VF_INPUT(unsigned char, m); VF_INPUT(unsigned char, pos); __CPROVER_assume(m <= N + 1 && pos <= m); XBUF(char, src, m, N + 1); view_t o = view_of(&s);
-  S *r = s_append_sv_pos(&s, src, m, pos);
+/*@COMMON@*/
+#define H_APPEND_SV_POS(NAME, KNOWN) void NAME(void) { ARB(s); VF_INPUT(unsigned char, m); VF_INPUT(unsigned char, pos); __CPROVER_assume(m <= N + 1 && pos <= m); XBUF(char, src, m, N + 1); view_t o = view_of(&s); \
+  S *r = s_append_sv_pos(&s, src, m, pos); \
   POST(s, sp_splice(o, o.n, 0, src_in + pos, umin(m - pos, N - o.n)), "append(sv, pos): the first min(sv.size() - pos, capacity - size) characters of sv.substr(pos) are appended"); VF_ASSERT(r == &s, "append returns *this"); VF_REACH(); }
+/*@GROUP name=append_sv_pos props=C04,C02,C05 kind=K unwind=12 when=VF_N<=7@*/
+H_APPEND_SV_POS(h_append_sv_pos, ((void)0))
+/*@GROUP name=append_sv_pos_u21 props=C04,C02,C05 kind=K unwind=21 when=7<VF_N<=16@*/
+H_APPEND_SV_POS(h_append_sv_pos_u21, ((void)0))
+/*@GROUP name=append_sv_pos_u36 props=C04,C02,C05 kind=K unwind=36 when=VF_N>16 tier=thorough timeout=3000@*/
+H_APPEND_SV_POS(h_append_sv_pos_u36, ((void)0))
 
-/*@GROUP name=pop_back props=C04,C02,C05 kind=K unwind=21 when=VF_N<=16@*/
-void h_pop_back(void) { ARB(s); view_t o = view_of(&s); __CPROVER_assume(o.n > 0); s_pop_back(&s);
+/*@COMMON@*/
+#define H_POP_BACK(NAME, KNOWN) void NAME(void) { ARB(s); view_t o = view_of(&s); __CPROVER_assume(o.n > 0); s_pop_back(&s); \
   POST(s, sp_splice(o, o.n - 1, 1, o.a, 0), "pop_back: the last character is removed, the prefix is unchanged"); VF_REACH(); }
+/*@GROUP name=pop_back props=C04,C02,C05 kind=K unwind=12 when=VF_N<=7@*/
+H_POP_BACK(h_pop_back, ((void)0))
+/*@GROUP name=pop_back_u21 props=C04,C02,C05 kind=K unwind=21 when=7<VF_N<=16@*/
+H_POP_BACK(h_pop_back_u21, ((void)0))
+/*@GROUP name=pop_back_u36 props=C04,C02,C05 kind=K unwind=36 when=VF_N>16 tier=thorough timeout=3000@*/
+H_POP_BACK(h_pop_back_u36, ((void)0))
+
+/*@COMMON@*/
+/* ---- insert (index forms only: the iterator forms are commented out in tetl).  insert = append + rotate, and append clamps: an insertion that
+ * does not fit inserts the first capacity - size source characters. */
+
+/*@COMMON@*/
+/* count <= N + 1: insert(index, count, ch) loops count times, every round beyond the capacity is a no-op */
+#define H_INSERT_FILL(NAME, KNOWN) void NAME(void) { ARB(s); VF_INPUT(unsigned char, p); VF_INPUT(unsigned char, c); VF_INPUT(char, ch); view_t o = view_of(&s); fill_t f = sp_fill(ch); __CPROVER_assume(p <= o.n && c <= N + 1); \
+  KNOWN; S *r = s_insert_n_ch(&s, p, c, ch); \
+  POST(s, sp_splice(o, p, 0, f.a, umin(c, N - o.n)), "insert(index, count, ch): min(count, capacity - size) copies of ch before index; prefix and shifted suffix unchanged"); VF_ASSERT(r == &s, "insert returns *this"); VF_REACH(); }
+/*@GROUP name=insert_fill props=C04,C02,C05 kind=K unwind=12 when=VF_N<=7 objbits=12 tier=thorough@*/
+H_INSERT_FILL(h_insert_fill, ((void)0))
+/*@GROUP name=insert_fill_u21 props=C04,C02,C05 kind=K unwind=21 when=7<VF_N<=16 objbits=12 tier=thorough@*/
+H_INSERT_FILL(h_insert_fill_u21, ((void)0))
+/*@GROUP name=insert_fill_u36 props=C04,C02,C05 kind=K unwind=36 when=VF_N>16 objbits=12 tier=thorough timeout=3000@*/
+H_INSERT_FILL(h_insert_fill_u36, ((void)0))
+
+/*@COMMON@*/
+#define H_INSERT_PTR_N(NAME, KNOWN) void NAME(void) { ARB(s); VF_INPUT(unsigned char, p); VF_INPUT(unsigned char, c); view_t o = view_of(&s); __CPROVER_assume(p <= o.n && c <= N + 1); XBUF(char, src, c, N + 1); \
+  KNOWN; S *r = s_insert_ptr_n(&s, p, src, c); \
+  POST(s, sp_splice(o, p, 0, src_in, umin(c, N - o.n)), "insert(index, s, count): the first min(count, capacity - size) source characters before index"); VF_ASSERT(r == &s, "insert returns *this"); VF_REACH(); }
+/*@GROUP name=insert_ptr_n props=C04,C02,C05 kind=K unwind=12 when=VF_N<=7 objbits=12@*/
+H_INSERT_PTR_N(h_insert_ptr_n, ((void)0))
+/*@GROUP name=insert_ptr_n_u21 props=C04,C02,C05 kind=K unwind=21 when=7<VF_N<=16 objbits=12 tier=thorough@*/
+H_INSERT_PTR_N(h_insert_ptr_n_u21, ((void)0))
+/*@GROUP name=insert_ptr_n_u36 props=C04,C02,C05 kind=K unwind=36 when=VF_N>16 objbits=12 tier=thorough timeout=3000@*/
+H_INSERT_PTR_N(h_insert_ptr_n_u36, ((void)0))
+
+/*@COMMON@*/
+#define H_INSERT_SV(NAME, KNOWN) void NAME(void) { ARB(s); VF_INPUT(unsigned char, p); VF_INPUT(unsigned char, c); view_t o = view_of(&s); __CPROVER_assume(p <= o.n && c <= N + 1); XBUF(char, src, c, N + 1); \
+  KNOWN; S *r = s_insert_sv(&s, p, src, c); \
+  POST(s, sp_splice(o, p, 0, src_in, umin(c, N - o.n)), "insert(index, string_view): the first min(sv.size(), capacity - size) characters before index"); VF_ASSERT(r == &s, "insert returns *this"); VF_REACH(); }
+/*@GROUP name=insert_sv props=C04,C02,C05 kind=K unwind=12 when=VF_N<=7 objbits=12@*/
+H_INSERT_SV(h_insert_sv, ((void)0))
+/*@GROUP name=insert_sv_u21 props=C04,C02,C05 kind=K unwind=21 when=7<VF_N<=16 objbits=12 tier=thorough@*/
+H_INSERT_SV(h_insert_sv_u21, ((void)0))
+/*@GROUP name=insert_sv_u36 props=C04,C02,C05 kind=K unwind=36 when=VF_N>16 objbits=12 tier=thorough timeout=3000@*/
+H_INSERT_SV(h_insert_sv_u36, ((void)0))
+
+/*@COMMON@*/
+#define H_INSERT_CSTR(NAME, KNOWN) void NAME(void) { ARB(s); VF_INPUT(unsigned char, p); VF_INPUT(unsigned char, c); view_t o = view_of(&s); __CPROVER_assume(p <= o.n && c <= N + 1); CSTR(src, c, N + 1); \
+  KNOWN; S *r = s_insert_cstr(&s, p, src); \
+  POST(s, sp_splice(o, p, 0, src_in, umin(c, N - o.n)), "insert(index, char const*): the first min(strlen, capacity - size) characters before index"); VF_ASSERT(r == &s, "insert returns *this"); VF_REACH(); }
+/*@GROUP name=insert_cstr props=C04,C02,C05 kind=K unwind=12 when=VF_N<=7 objbits=12@*/
+H_INSERT_CSTR(h_insert_cstr, ((void)0))
+/*@GROUP name=insert_cstr_u21 props=C04,C02,C05 kind=K unwind=21 when=7<VF_N<=16 objbits=12 tier=thorough@*/
+H_INSERT_CSTR(h_insert_cstr_u21, ((void)0))
+/*@GROUP name=insert_cstr_u36 props=C04,C02,C05 kind=K unwind=36 when=VF_N>16 objbits=12 tier=thorough timeout=3000@*/
+H_INSERT_CSTR(h_insert_cstr_u36, ((void)0))
+
+/*@COMMON@*/
+#define H_INSERT_STR(NAME, KNOWN) void NAME(void) { ARB(s); ARB(t); VF_INPUT(unsigned char, p); view_t o = view_of(&s), b = view_of(&t); __CPROVER_assume(p <= o.n); \
+  KNOWN; S *r = s_insert_str(&s, p, &t); \
+  POST(s, sp_splice(o, p, 0, b.a, umin(b.n, N - o.n)), "insert(index, str): the first min(str.size(), capacity - size) characters of str before index"); VF_ASSERT(r == &s, "insert returns *this"); \
+  VF_ASSERT(view_eq(view_of(&t), b) && WF(t), "the source string is unchanged"); VF_REACH(); }
+/*@GROUP name=insert_str props=C04,C02,C05 kind=K unwind=12 when=VF_N<=7 objbits=12@*/
+H_INSERT_STR(h_insert_str, ((void)0))
+/*@GROUP name=insert_str_u21 props=C04,C02,C05 kind=K unwind=21 when=7<VF_N<=16 objbits=12 tier=thorough@*/
+H_INSERT_STR(h_insert_str_u21, ((void)0))
+/*@GROUP name=insert_str_u36 props=C04,C02,C05 kind=K unwind=36 when=VF_N>16 objbits=12 tier=thorough timeout=3000@*/
+H_INSERT_STR(h_insert_str_u36, ((void)0))
+
+/*@COMMON@*/
+#define H_INSERT_STR_SUB(NAME, KNOWN) void NAME(void) { ARB(s); ARB(t); VF_INPUT(unsigned char, p); VF_INPUT(unsigned char, pos); VF_INPUT(unsigned long, cnt); VF_INPUT_BOOL(dflt); view_t o = view_of(&s), b = view_of(&t); \
+  if (dflt) cnt = NPOS; __CPROVER_assume(p <= o.n && pos <= b.n); unsigned long rlen = umin(cnt, b.n - pos); \
+  KNOWN; S *r = dflt ? s_insert_str_pos(&s, p, &t, pos) : s_insert_str_pos_n(&s, p, &t, pos, cnt); \
+  POST(s, sp_splice(o, p, 0, b.a + pos, umin(rlen, N - o.n)), "insert(index, str, pos[, n]): the first min(rlen, capacity - size) characters of str.substr(pos, n) before index"); VF_ASSERT(r == &s, "insert returns *this"); \
+  VF_ASSERT(view_eq(view_of(&t), b) && WF(t), "the source string is unchanged"); VF_REACH(); }
+/*@GROUP name=insert_str_sub props=C04,C02,C05 kind=K unwind=12 when=VF_N<=7 objbits=12 tier=thorough@*/
+H_INSERT_STR_SUB(h_insert_str_sub, ((void)0))
+/*@GROUP name=insert_str_sub_u21 props=C04,C02,C05 kind=K unwind=21 when=7<VF_N<=16 objbits=12 tier=thorough@*/
+H_INSERT_STR_SUB(h_insert_str_sub_u21, ((void)0))
+/*@GROUP name=insert_str_sub_u36 props=C04,C02,C05 kind=K unwind=36 when=VF_N>16 objbits=12 tier=thorough timeout=3000@*/
+H_INSERT_STR_SUB(h_insert_str_sub_u36, ((void)0))
+
+/*@COMMON@*/
+#define H_INSERT_SV_SUB(NAME, KNOWN) void NAME(void) { ARB(s); VF_INPUT(unsigned char, p); VF_INPUT(unsigned char, m); VF_INPUT(unsigned char, pos); VF_INPUT(unsigned long, cnt); VF_INPUT_BOOL(dflt); view_t o = view_of(&s); \
+  __CPROVER_assume(p <= o.n && m <= N + 1 && pos <= m); XBUF(char, src, m, N + 1); if (dflt) cnt = NPOS; unsigned long rlen = umin(cnt, m - pos); \
+  KNOWN; S *r = dflt ? s_insert_sv_pos(&s, p, src, m, pos) : s_insert_sv_pos_n(&s, p, src, m, pos, cnt); \
+  POST(s, sp_splice(o, p, 0, src_in + pos, umin(rlen, N - o.n)), "insert(index, sv, pos[, n]): the first min(rlen, capacity - size) characters of sv.substr(pos, n) before index"); VF_ASSERT(r == &s, "insert returns *this"); VF_REACH(); }
+/*@GROUP name=insert_sv_sub props=C04,C02,C05 kind=K unwind=12 when=VF_N<=7 objbits=12 tier=thorough@*/
+H_INSERT_SV_SUB(h_insert_sv_sub, ((void)0))
+/*@GROUP name=insert_sv_sub_u21 props=C04,C02,C05 kind=K unwind=21 when=7<VF_N<=16 objbits=12 tier=thorough@*/
+H_INSERT_SV_SUB(h_insert_sv_sub_u21, ((void)0))
+/*@GROUP name=insert_sv_sub_u36 props=C04,C02,C05 kind=K unwind=36 when=VF_N>16 objbits=12 tier=thorough timeout=3000@*/
+H_INSERT_SV_SUB(h_insert_sv_sub_u36, ((void)0))
+
+/*@COMMON@*/
+/* ---- erase */
+
+/*@COMMON@*/
+#define H_ERASE_IDX(NAME, KNOWN) void NAME(void) { ARB(s); VF_INPUT(unsigned char, p); VF_INPUT(unsigned long, cnt); VF_INPUT(unsigned char, which); view_t o = view_of(&s); \
+  if (which == 1) cnt = NPOS; else if (which >= 2) { p = 0; cnt = NPOS; } \
+  __CPROVER_assume(p <= o.n); unsigned long xlen = umin(cnt, o.n - p); \
+  KNOWN; S *r = which == 0 ? s_erase_idx(&s, p, cnt) : which == 1 ? s_erase_idx1(&s, p) : s_erase_all(&s); \
+  POST(s, sp_splice(o, p, xlen, o.a, 0), "erase(index = 0, count = npos): min(count, size - index) characters removed, the suffix moves down"); VF_ASSERT(r == &s, "erase returns *this"); VF_REACH(); }
+/*@GROUP name=erase_idx props=C04,C02,C05 kind=K unwind=12 when=VF_N<=7 objbits=12@*/
+H_ERASE_IDX(h_erase_idx, VF_KNOWN(C05_erase_whole, xlen == o.n))
+/*@GROUP name=erase_idx_u21 props=C04,C02,C05 kind=K unwind=21 when=7<VF_N<=16 objbits=12 solver=kissat tier=thorough@*/
+H_ERASE_IDX(h_erase_idx_u21, VF_KNOWN(C05_erase_whole, xlen == o.n))
+/*@GROUP name=erase_idx_u36 props=C04,C02,C05 kind=K unwind=36 when=VF_N>16 objbits=12 tier=thorough timeout=3000@*/
+H_ERASE_IDX(h_erase_idx_u36, VF_KNOWN(C05_erase_whole, xlen == o.n))
+
+/*@COMMON@*/
+#define H_ERASE_IT(NAME, KNOWN) void NAME(void) { ARB(s); VF_INPUT(unsigned char, f); VF_INPUT(unsigned char, l); VF_INPUT_BOOL(one); view_t o = view_of(&s); \
+  if (one) { __CPROVER_assume(f < o.n); l = f + 1; } else __CPROVER_assume(f <= l && l <= o.n); \
+  KNOWN; char *r = one ? s_erase_it(&s, data_of(&s) + f) : s_erase_range(&s, data_of(&s) + f, data_of(&s) + l); \
+  POST(s, sp_splice(o, f, l - f, o.a, 0), "erase(position) / erase(first, last): the range is removed, the suffix moves down"); \
+  VF_ASSERT(r == data_of(&s) + f, "erase returns the iterator to the character that followed the erased range (begin() + first)"); VF_REACH(); }
+/*@GROUP name=erase_it props=C04,C02,C05 kind=K unwind=12 when=VF_N<=7 objbits=12@*/
+H_ERASE_IT(h_erase_it, VF_KNOWN(C05_erase_whole, l - f == o.n))
+/*@GROUP name=erase_it_u21 props=C04,C02,C05 kind=K unwind=21 when=7<VF_N<=16 objbits=12 solver=kissat tier=thorough@*/
+H_ERASE_IT(h_erase_it_u21, VF_KNOWN(C05_erase_whole, l - f == o.n))
+/*@GROUP name=erase_it_u36 props=C04,C02,C05 kind=K unwind=36 when=VF_N>16 objbits=12 tier=thorough timeout=3000@*/
+H_ERASE_IT(h_erase_it_u36, VF_KNOWN(C05_erase_whole, l - f == o.n))
+
+/*@COMMON@*/
+#define H_ERASE_VALUE(NAME, KNOWN) void NAME(void) { ARB(s); VF_INPUT(char, x); VF_INPUT_BOOL(pred); view_t o = view_of(&s); view_t e = sp_empty(); \
+  for (int i = 0; i < N; ++i) if ((unsigned long)i < o.n && !(pred ? (o.a[i] & 1) == 0 : o.a[i] == x)) { e.a[e.n] = o.a[i]; ++e.n; } \
+  KNOWN; unsigned long r = pred ? s_erase_if(&s) : s_erase_value(&s, x); \
+  POST(s, e, "erase(c, value) / erase_if(c, pred): exactly the non-matching characters survive, in their original order"); \
+  VF_ASSERT(r == o.n - e.n, "erase / erase_if return the number of removed characters"); VF_REACH(); }
+/*@GROUP name=erase_value props=C04,C02 kind=K unwind=12 when=VF_N<=7 objbits=12@*/
+H_ERASE_VALUE(h_erase_value, VF_KNOWN(C05_erase_whole, e.n == 0))
+/*@GROUP name=erase_value_u21 props=C04,C02 kind=K unwind=21 when=7<VF_N<=16 objbits=12 solver=kissat tier=thorough@*/
+H_ERASE_VALUE(h_erase_value_u21, VF_KNOWN(C05_erase_whole, e.n == 0))
+/*@GROUP name=erase_value_u36 props=C04,C02 kind=K unwind=36 when=VF_N>16 objbits=12 tier=thorough timeout=3000@*/
+H_ERASE_VALUE(h_erase_value_u36, VF_KNOWN(C05_erase_whole, e.n == 0))
+
+/*@COMMON@*/
+/* ---- replace.  Reference: [string.replace] (xlen = min(n1, size - pos); result = prefix + new text + suffix, the size changes by m - xlen).
+ * tetl overwrites min(xlen, m) characters in place and never changes the size; the index forms additionally require pos < size and pos + n1 < size.
+ * The two agree exactly when m == xlen (and, for the index forms, pos + n1 < size): everything else is the witness class of C04_replace_not_std. */
+
+/*@COMMON@*/
+#define H_REPLACE_STR(NAME, KNOWN) void NAME(void) { ARB(s); ARB(t); VF_INPUT(unsigned char, p); VF_INPUT(unsigned long, cnt); view_t o = view_of(&s), b = view_of(&t); \
+  __CPROVER_assume(p <= o.n); unsigned long xlen = umin(cnt, o.n - p); __CPROVER_assume(o.n - xlen + b.n <= N); \
+  KNOWN; S *r = s_replace_str(&s, p, cnt, &t); \
+  POST(s, sp_splice(o, p, xlen, b.a, b.n), "replace(pos, n1, str): [pos, pos + xlen) is replaced by str"); VF_ASSERT(r == &s, "replace returns *this"); VF_REACH(); }
+/*@GROUP name=replace_str props=C04,C02,C05 kind=K unwind=12 when=VF_N<=7@*/
+H_REPLACE_STR(h_replace_str, VF_KNOWN(C04_replace_not_std, !(b.n == xlen && cnt < o.n - p)))
+/*@GROUP name=replace_str_u21 props=C04,C02,C05 kind=K unwind=21 when=7<VF_N<=16@*/
+H_REPLACE_STR(h_replace_str_u21, VF_KNOWN(C04_replace_not_std, !(b.n == xlen && cnt < o.n - p)))
+/*@GROUP name=replace_str_u36 props=C04,C02,C05 kind=K unwind=36 when=VF_N>16 tier=thorough timeout=3000@*/
+H_REPLACE_STR(h_replace_str_u36, VF_KNOWN(C04_replace_not_std, !(b.n == xlen && cnt < o.n - p)))
+
+/*@COMMON@*/
+#define H_REPLACE_STR_SUB(NAME, KNOWN) void NAME(void) { ARB(s); ARB(t); VF_INPUT(unsigned char, p); VF_INPUT(unsigned long, cnt); VF_INPUT(unsigned char, pos2); VF_INPUT(unsigned long, cnt2); VF_INPUT_BOOL(dflt); view_t o = view_of(&s), b = view_of(&t); \
+  if (dflt) cnt2 = NPOS; __CPROVER_assume(p <= o.n && pos2 <= b.n); unsigned long xlen = umin(cnt, o.n - p), rlen = umin(cnt2, b.n - pos2); __CPROVER_assume(o.n - xlen + rlen <= N); \
+  KNOWN; S *r = dflt ? s_replace_str_pos(&s, p, cnt, &t, pos2) : s_replace_str_pos_n(&s, p, cnt, &t, pos2, cnt2); \
+  POST(s, sp_splice(o, p, xlen, b.a + pos2, rlen), "replace(pos, n1, str, pos2[, n2]): [pos, pos + xlen) is replaced by str.substr(pos2, n2)"); VF_ASSERT(r == &s, "replace returns *this"); VF_REACH(); }
+/*@GROUP name=replace_str_sub props=C04,C02,C05 kind=K unwind=12 when=VF_N<=7@*/
+H_REPLACE_STR_SUB(h_replace_str_sub, VF_KNOWN(C04_replace_not_std, !(rlen == xlen && p < o.n && pos2 < b.n && cnt <= NPOS - p && cnt2 <= NPOS - pos2)))
+/*@GROUP name=replace_str_sub_u21 props=C04,C02,C05 kind=K unwind=21 when=7<VF_N<=16@*/
+H_REPLACE_STR_SUB(h_replace_str_sub_u21, VF_KNOWN(C04_replace_not_std, !(rlen == xlen && p < o.n && pos2 < b.n && cnt <= NPOS - p && cnt2 <= NPOS - pos2)))
+/*@GROUP name=replace_str_sub_u36 props=C04,C02,C05 kind=K unwind=36 when=VF_N>16 tier=thorough timeout=3000@*/
+H_REPLACE_STR_SUB(h_replace_str_sub_u36, VF_KNOWN(C04_replace_not_std, !(rlen == xlen && p < o.n && pos2 < b.n && cnt <= NPOS - p && cnt2 <= NPOS - pos2)))
+
+/*@COMMON@*/
+#define H_REPLACE_BUF(NAME, KNOWN) void NAME(void) { ARB(s); VF_INPUT(unsigned char, p); VF_INPUT(unsigned long, cnt); VF_INPUT(unsigned char, c); VF_INPUT_BOOL(cs); view_t o = view_of(&s); \
+  __CPROVER_assume(p <= o.n && c <= N); unsigned long xlen = umin(cnt, o.n - p); __CPROVER_assume(o.n - xlen + c <= N); \
+  XBUF(char, src, (unsigned long)c + cs, N + 1); if (cs) { __CPROVER_assume(src_in[c] == 0); for (int j = 0; j < N; ++j) __CPROVER_assume(j >= c || src_in[j] != 0); } \
+  KNOWN; S *r = cs ? s_replace_cstr(&s, p, cnt, src) : s_replace_ptr_n(&s, p, cnt, src, c); \
+  POST(s, sp_splice(o, p, xlen, src_in, c), "replace(pos, n1, s, n2) / replace(pos, n1, char const*): [pos, pos + xlen) is replaced by the source characters"); VF_ASSERT(r == &s, "replace returns *this"); VF_REACH(); }
+/*@GROUP name=replace_buf props=C04,C02,C05 kind=K unwind=12 when=VF_N<=7@*/
+H_REPLACE_BUF(h_replace_buf, VF_KNOWN(C04_replace_not_std, !(c == xlen && cnt < o.n - p)))
+/*@GROUP name=replace_buf_u21 props=C04,C02,C05 kind=K unwind=21 when=7<VF_N<=16@*/
+H_REPLACE_BUF(h_replace_buf_u21, VF_KNOWN(C04_replace_not_std, !(c == xlen && cnt < o.n - p)))
+/*@GROUP name=replace_buf_u36 props=C04,C02,C05 kind=K unwind=36 when=VF_N>16 tier=thorough timeout=3000@*/
+H_REPLACE_BUF(h_replace_buf_u36, VF_KNOWN(C04_replace_not_std, !(c == xlen && cnt < o.n - p)))
+
+/*@COMMON@*/
+#define H_REPLACE_IT(NAME, KNOWN) void NAME(void) { ARB(s); ARB(t); VF_INPUT(unsigned char, f); VF_INPUT(unsigned char, l); VF_INPUT(unsigned char, c); VF_INPUT(char, ch); VF_INPUT(unsigned char, which); view_t o = view_of(&s), b = view_of(&t); fill_t fl = sp_fill(ch); \
+  _Bool cs = which == 2; __CPROVER_assume(f <= l && l <= o.n && c <= N); XBUF(char, src, (unsigned long)c + cs, N + 1); if (cs) { __CPROVER_assume(src_in[c] == 0); for (int j = 0; j < N; ++j) __CPROVER_assume(j >= c || src_in[j] != 0); } \
+  unsigned long m = which == 0 ? b.n : c; __CPROVER_assume(o.n - (l - f) + m <= N); \
+  char nd[N + 2]; for (int j = 0; j < N + 2; ++j) nd[j] = which == 0 ? (j <= N ? b.a[j] : 0) : which >= 3 ? ch : (j <= N + 1 ? src_in[j] : 0); \
+  KNOWN; char *pf = data_of(&s) + f, *pl = data_of(&s) + l; \
+  S *r = which == 0 ? s_replace_it_str(&s, pf, pl, &t) : which == 1 ? s_replace_it_ptr_n(&s, pf, pl, src, c) : which == 2 ? s_replace_it_cstr(&s, pf, pl, src) : s_replace_it_n_ch(&s, pf, pl, c, ch); \
+  POST(s, sp_splice(o, f, l - f, nd, m), "replace(first, last, str | s, n2 | char const* | n2, ch): [first, last) is replaced by the new characters"); VF_ASSERT(r == &s, "replace returns *this"); VF_REACH(); }
+/*@GROUP name=replace_it props=C04,C02,C05 kind=K unwind=12 when=VF_N<=7@*/
+H_REPLACE_IT(h_replace_it, VF_KNOWN(C04_replace_not_std, m != (unsigned long)(l - f)))
+/*@GROUP name=replace_it_u21 props=C04,C02,C05 kind=K unwind=21 when=7<VF_N<=16@*/
+H_REPLACE_IT(h_replace_it_u21, VF_KNOWN(C04_replace_not_std, m != (unsigned long)(l - f)))
+/*@GROUP name=replace_it_u36 props=C04,C02,C05 kind=K unwind=36 when=VF_N>16 tier=thorough timeout=3000@*/
+H_REPLACE_IT(h_replace_it_u36, VF_KNOWN(C04_replace_not_std, m != (unsigned long)(l - f)))
+
+/*@COMMON@*/
+/* ---- resize / clear / swap */
+
+/*@COMMON@*/
+/* documented: "additional characters are appended, maximum up to its capacity": a count beyond the capacity fills the string up */
+#define H_RESIZE(NAME, KNOWN) void NAME(void) { ARB(s); VF_INPUT(unsigned long, m); VF_INPUT(char, ch); VF_INPUT_BOOL(with_ch); view_t o = view_of(&s); if (!with_ch) ch = 0; fill_t f = sp_fill(ch); \
+  KNOWN; if (with_ch) s_resize_ch(&s, m, ch); else s_resize(&s, m); \
+  unsigned long m2 = umin(m, N); view_t e = m2 <= o.n ? sp_splice(o, m2, o.n - m2, o.a, 0) : sp_splice(o, o.n, 0, f.a, m2 - o.n); \
+  POST(s, e, "resize(count[, ch]): size() == min(count, capacity); the common prefix is kept, new characters are ch / char()"); VF_REACH(); }
+/*@GROUP name=resize props=C04,C02,C05 kind=K unwind=12 when=VF_N<=7@*/
+H_RESIZE(h_resize, VF_KNOWN(C04_resize_grow, o.n > 0 && m > o.n && m < N))
+/*@GROUP name=resize_u21 props=C04,C02,C05 kind=K unwind=21 when=7<VF_N<=16@*/
+H_RESIZE(h_resize_u21, VF_KNOWN(C04_resize_grow, o.n > 0 && m > o.n && m < N))
+/*@GROUP name=resize_u36 props=C04,C02,C05 kind=K unwind=36 when=VF_N>16 tier=thorough timeout=3000@*/
+H_RESIZE(h_resize_u36, VF_KNOWN(C04_resize_grow, o.n > 0 && m > o.n && m < N))
+
+/*@COMMON@*/
+#define H_CLEAR(NAME, KNOWN) void NAME(void) { ARB(s); s_clear(&s); POST(s, sp_empty(), "clear(): empty"); VF_ASSERT(s_size(&s) == 0 && s_empty(&s), "clear(): size() == 0"); CAPACITY_UNCHANGED(s); VF_REACH(); }
+/*@GROUP name=clear props=C04,C02 kind=K unwind=12 when=VF_N<=7@*/
+H_CLEAR(h_clear, ((void)0))
+/*@GROUP name=clear_u21 props=C04,C02 kind=K unwind=21 when=7<VF_N<=16@*/
+H_CLEAR(h_clear_u21, ((void)0))
+/*@GROUP name=clear_u36 props=C04,C02 kind=K unwind=36 when=VF_N>16 tier=thorough timeout=3000@*/
+H_CLEAR(h_clear_u36, ((void)0))
+
+/*@COMMON@*/
+#define H_SWAP(NAME, KNOWN) void NAME(void) { ARB(a); ARB(b); VF_INPUT_BOOL(fr); view_t oa = view_of(&a), ob = view_of(&b); \
+  KNOWN; if (fr) s_swap_free(&a, &b); else s_swap(&a, &b); \
+  VF_ASSERT(WF(a) && WF(b), "C04: wf after swap: both strings null-terminated, size() <= capacity()"); VF_ASSERT(view_eq(view_of(&a), ob) && view_eq(view_of(&b), oa), "C04: swap exchanges the two strings"); VF_REACH(); }
+/*@GROUP name=swap props=C04,C02 kind=K unwind=12 when=VF_N<=7@*/
+H_SWAP(h_swap, VF_KNOWN(C04_swap_tiny_full, N < 16 && oa.n != ob.n && (oa.n == N || ob.n == N)))
+/*@GROUP name=swap_u21 props=C04,C02 kind=K unwind=21 when=7<VF_N<=16@*/
+H_SWAP(h_swap_u21, VF_KNOWN(C04_swap_tiny_full, N < 16 && oa.n != ob.n && (oa.n == N || ob.n == N)))
+/*@GROUP name=swap_u36 props=C04,C02 kind=K unwind=36 when=VF_N>16 tier=thorough timeout=3000@*/
+H_SWAP(h_swap_u36, VF_KNOWN(C04_swap_tiny_full, N < 16 && oa.n != ob.n && (oa.n == N || ob.n == N)))
+
+/*@COMMON@*/
+/* ---- substr / copy.  Documented deviation from [string.substr]/[string.copy]: pos > size() returns an empty string / copies nothing (std throws). */
+
+/*@COMMON@*/
+#define H_SUBSTR(NAME, KNOWN) void NAME(void) { ARB(s); VF_INPUT(S, t); VF_INPUT(unsigned long, pos); VF_INPUT(unsigned long, cnt); VF_INPUT(unsigned char, which); view_t o = view_of(&s); \
+  if (which == 1) cnt = NPOS; else if (which >= 2) { pos = 0; cnt = NPOS; } \
+  if (which == 0) s_substr(&t, &s, pos, cnt); else if (which == 1) s_substr_pos(&t, &s, pos); else s_substr_all(&t, &s); \
+  unsigned long p2 = umin(pos, o.n); unsigned long rlen = pos > o.n ? 0 : umin(cnt, o.n - pos); \
+  POST(t, sp_splice(sp_empty(), 0, 0, o.a + p2, rlen), "substr(pos = 0, n = npos): the characters [pos, pos + min(n, size - pos)); empty for pos > size (documented)"); \
+  VF_ASSERT(WF(s) && view_eq(view_of(&s), o), "substr leaves *this unchanged"); VF_REACH(); }
+/*@GROUP name=substr props=C04,C02,C05 kind=K unwind=12 when=VF_N<=7@*/
+H_SUBSTR(h_substr, ((void)0))
+/*@GROUP name=substr_u21 props=C04,C02,C05 kind=K unwind=21 when=7<VF_N<=16@*/
+H_SUBSTR(h_substr_u21, ((void)0))
+/*@GROUP name=substr_u36 props=C04,C02,C05 kind=K unwind=36 when=VF_N>16 tier=thorough timeout=3000@*/
+H_SUBSTR(h_substr_u36, ((void)0))
+
+/*@COMMON@*/
+#define H_COPY(NAME, KNOWN) void NAME(void) { ARB(s); VF_INPUT(unsigned long, pos); VF_INPUT(unsigned long, cnt); VF_INPUT_BOOL(dflt); view_t o = view_of(&s); if (dflt) pos = 0; \
+  unsigned long p2 = umin(pos, o.n); unsigned long rlen = pos > o.n ? 0 : umin(cnt, o.n - pos); \
+  VF_INPUT_ARR(char, dst_in, N + 1); char *dst = XALLOC(rlen); for (unsigned long j = 0; j < rlen; ++j) dst[j] = dst_in[j]; \
+  unsigned long r = dflt ? s_copy0(&s, dst, cnt) : s_copy(&s, dst, cnt, pos); \
+  VF_ASSERT(r == rlen, "C04: copy(dest, n, pos = 0) returns min(n, size - pos); 0 for pos > size (documented)"); \
+  _Bool same = 1; for (int j = 0; j < N; ++j) if ((unsigned long)j < rlen && dst[j] != o.a[p2 + (unsigned long)j]) same = 0; \
+  VF_ASSERT(same, "C04: copy stores exactly the characters [pos, pos + rlen) and no terminator (the destination has exactly rlen bytes)"); \
+  VF_ASSERT(WF(s) && view_eq(view_of(&s), o), "copy leaves *this unchanged"); VF_REACH(); }
+/*@GROUP name=copy props=C04,C02,C05 kind=K unwind=12 when=VF_N<=7@*/
+H_COPY(h_copy, ((void)0))
+/*@GROUP name=copy_u21 props=C04,C02,C05 kind=K unwind=21 when=7<VF_N<=16@*/
+H_COPY(h_copy_u21, ((void)0))
+/*@GROUP name=copy_u36 props=C04,C02,C05 kind=K unwind=36 when=VF_N>16 tier=thorough timeout=3000@*/
+H_COPY(h_copy_u36, ((void)0))
+
+/*@COMMON@*/
+/* ---- compare / relational operators: sign of the result against [string.compare] with [char.traits.specializations.char] (unsigned char order) */
+
+/*@COMMON@*/
+#define H_COMPARE_STR(NAME, KNOWN) void NAME(void) { ARB(a); ARB(b); view_t oa = view_of(&a), ob = view_of(&b); seq_t x = seq_sub(oa.a, oa.n, 0, NPOS), y = seq_sub(ob.a, ob.n, 0, NPOS); int c = sp_cmpq(x, y); \
+  KNOWN; VF_ASSERT(sgn(s_compare_str(&a, &b)) == c, "C04: compare(str): sign of the lexicographic comparison (characters ordered as unsigned char), then of the sizes"); \
+  VF_ASSERT(s_eq(&a, &b) == (c == 0) && s_ne(&a, &b) == (c != 0), "C04: operator== / != (string, string)"); \
+  VF_ASSERT(s_lt(&a, &b) == (c < 0) && s_le(&a, &b) == (c <= 0) && s_gt(&a, &b) == (c > 0) && s_ge(&a, &b) == (c >= 0), "C04: operator< <= > >= (string, string)"); \
+  UNCHANGED(a, oa); UNCHANGED(b, ob); VF_REACH(); }
+/*@GROUP name=compare_str props=C04,C02 kind=K unwind=12 when=VF_N<=7@*/
+H_COMPARE_STR(h_compare_str, VF_KNOWN(C04_compare_signed_char, sp_signflip(x, y)))
+/*@GROUP name=compare_str_u21 props=C04,C02 kind=K unwind=21 when=7<VF_N<=16@*/
+H_COMPARE_STR(h_compare_str_u21, VF_KNOWN(C04_compare_signed_char, sp_signflip(x, y)))
+/*@GROUP name=compare_str_u36 props=C04,C02 kind=K unwind=36 when=VF_N>16 tier=thorough timeout=3000@*/
+H_COMPARE_STR(h_compare_str_u36, VF_KNOWN(C04_compare_signed_char, sp_signflip(x, y)))
+
+/*@COMMON@*/
+#define H_COMPARE_SUB_STR(NAME, KNOWN) void NAME(void) { ARB(a); ARB(b); VF_INPUT(unsigned char, pos); VF_INPUT(unsigned long, cnt); VF_INPUT(unsigned char, pos2); VF_INPUT(unsigned long, cnt2); VF_INPUT(unsigned char, which); view_t oa = view_of(&a), ob = view_of(&b); \
+  if (which == 0) { pos2 = 0; cnt2 = NPOS; } else if (which >= 2) cnt2 = NPOS; \
+  __CPROVER_assume(pos <= oa.n && pos2 <= ob.n); seq_t x = seq_sub(oa.a, oa.n, pos, cnt), y = seq_sub(ob.a, ob.n, pos2, cnt2); int c = sp_cmpq(x, y); \
+  KNOWN; int r = which == 0 ? s_compare_pn_str(&a, pos, cnt, &b) : which == 1 ? s_compare_pn_str_pn(&a, pos, cnt, &b, pos2, cnt2) : s_compare_pn_str_p(&a, pos, cnt, &b, pos2); \
+  VF_ASSERT(sgn(r) == c, "C04: compare(pos1, n1, str[, pos2[, n2]]): substr(pos1, n1) against str.substr(pos2, n2)"); UNCHANGED(a, oa); UNCHANGED(b, ob); VF_REACH(); }
+/*@GROUP name=compare_sub_str props=C04,C02,C05 kind=K unwind=12 when=VF_N<=7@*/
+H_COMPARE_SUB_STR(h_compare_sub_str, VF_KNOWN(C04_compare_signed_char, sp_signflip(x, y)); VF_KNOWN(C04_compare_count2_size, which >= 1 && cnt2 > ob.n - pos2 && oa.n < ob.n - pos2))
+/*@GROUP name=compare_sub_str_u21 props=C04,C02,C05 kind=K unwind=21 when=7<VF_N<=16@*/
+H_COMPARE_SUB_STR(h_compare_sub_str_u21, VF_KNOWN(C04_compare_signed_char, sp_signflip(x, y)); VF_KNOWN(C04_compare_count2_size, which >= 1 && cnt2 > ob.n - pos2 && oa.n < ob.n - pos2))
+/*@GROUP name=compare_sub_str_u36 props=C04,C02,C05 kind=K unwind=36 when=VF_N>16 tier=thorough timeout=3000@*/
+H_COMPARE_SUB_STR(h_compare_sub_str_u36, VF_KNOWN(C04_compare_signed_char, sp_signflip(x, y)); VF_KNOWN(C04_compare_count2_size, which >= 1 && cnt2 > ob.n - pos2 && oa.n < ob.n - pos2))
+
+/*@COMMON@*/
+#define H_COMPARE_CSTR(NAME, KNOWN) void NAME(void) { ARB(a); VF_INPUT(unsigned char, c); VF_INPUT(unsigned char, pos); VF_INPUT(unsigned long, cnt); VF_INPUT_BOOL(sub); view_t oa = view_of(&a); __CPROVER_assume(c <= N + 1); CSTR(src, c, N + 1); \
+  if (!sub) { pos = 0; cnt = NPOS; } __CPROVER_assume(pos <= oa.n); seq_t x = seq_sub(oa.a, oa.n, pos, cnt), y = seq_sub(src_in, c, 0, NPOS); int k = sp_cmpq(x, y); \
+  KNOWN; if (sub) VF_ASSERT(sgn(s_compare_pn_cstr(&a, pos, cnt, src)) == k, "C04: compare(pos1, n1, char const*)"); \
+  else { VF_ASSERT(sgn(s_compare_cstr(&a, src)) == k, "C04: compare(char const*)"); \
+    VF_ASSERT(s_eq_c(&a, src) == (k == 0) && s_ne_c(&a, src) == (k != 0) && s_lt_c(&a, src) == (k < 0) && s_le_c(&a, src) == (k <= 0) && s_gt_c(&a, src) == (k > 0) && s_ge_c(&a, src) == (k >= 0), "C04: operator== != < <= > >= (string, char const*)"); \
+    VF_ASSERT(s_c_eq(src, &a) == (k == 0) && s_c_ne(src, &a) == (k != 0) && s_c_lt(src, &a) == (k > 0) && s_c_le(src, &a) == (k >= 0) && s_c_gt(src, &a) == (k < 0) && s_c_ge(src, &a) == (k <= 0), "C04: operator== != < <= > >= (char const*, string)"); } \
+  UNCHANGED(a, oa); VF_REACH(); }
+/*@GROUP name=compare_cstr props=C04,C02,C05 kind=K unwind=12 when=VF_N<=7@*/
+H_COMPARE_CSTR(h_compare_cstr, VF_KNOWN(C04_compare_signed_char, sp_signflip(x, y)))
+/*@GROUP name=compare_cstr_u21 props=C04,C02,C05 kind=K unwind=21 when=7<VF_N<=16@*/
+H_COMPARE_CSTR(h_compare_cstr_u21, VF_KNOWN(C04_compare_signed_char, sp_signflip(x, y)))
+/*@GROUP name=compare_cstr_u36 props=C04,C02,C05 kind=K unwind=36 when=VF_N>16 tier=thorough timeout=3000@*/
+H_COMPARE_CSTR(h_compare_cstr_u36, VF_KNOWN(C04_compare_signed_char, sp_signflip(x, y)))
+
+/*@COMMON@*/
+#define H_COMPARE_BUF(NAME, KNOWN) void NAME(void) { ARB(a); VF_INPUT(unsigned char, m); VF_INPUT(unsigned char, pos); VF_INPUT(unsigned long, cnt); VF_INPUT(unsigned char, pos2); VF_INPUT(unsigned long, cnt2); VF_INPUT(unsigned char, which); view_t oa = view_of(&a); \
+  __CPROVER_assume(m <= N + 1); XBUF(char, src, m, N + 1); \
+  if (which == 1) { pos = 0; cnt = NPOS; } if (which <= 2) { pos2 = 0; cnt2 = NPOS; } else if (which >= 4) cnt2 = NPOS; \
+  __CPROVER_assume(pos <= oa.n && pos2 <= m); seq_t x = seq_sub(oa.a, oa.n, pos, cnt), y = seq_sub(src_in, m, pos2, cnt2); int k = sp_cmpq(x, y); \
+  KNOWN; int r = which == 0 ? s_compare_pn_ptr_n(&a, pos, cnt, src, m) : which == 1 ? s_compare_sv(&a, src, m) : which == 2 ? s_compare_pn_sv(&a, pos, cnt, src, m) : which == 3 ? s_compare_pn_sv_pn(&a, pos, cnt, src, m, pos2, cnt2) : s_compare_pn_sv_p(&a, pos, cnt, src, m, pos2); \
+  VF_ASSERT(sgn(r) == k, "C04: compare(pos1, n1, s, n2) / compare(sv) / compare(pos1, n1, sv[, pos2[, n2]])"); UNCHANGED(a, oa); VF_REACH(); }
+/*@GROUP name=compare_buf props=C04,C02,C05 kind=K unwind=12 when=VF_N<=7@*/
+H_COMPARE_BUF(h_compare_buf, VF_KNOWN(C04_compare_signed_char, sp_signflip(x, y)))
+/*@GROUP name=compare_buf_u21 props=C04,C02,C05 kind=K unwind=21 when=7<VF_N<=16@*/
+H_COMPARE_BUF(h_compare_buf_u21, VF_KNOWN(C04_compare_signed_char, sp_signflip(x, y)))
+/*@GROUP name=compare_buf_u36 props=C04,C02,C05 kind=K unwind=36 when=VF_N>16 tier=thorough timeout=3000@*/
+H_COMPARE_BUF(h_compare_buf_u36, VF_KNOWN(C04_compare_signed_char, sp_signflip(x, y)))
+
+/*@COMMON@*/
+/* ---- starts_with / ends_with / contains ([string.starts.with], [string.ends.with], [string.contains]) */
+#define NEEDLE(nd, isstr, isch) seq_t nd; nd.n = (isstr) ? b.n : (isch) ? 1 : c; for (int vf_q = 0; vf_q < N + 2; ++vf_q) nd.a[vf_q] = (unsigned long)vf_q >= nd.n ? 0 : (isstr) ? b.a[vf_q <= N ? vf_q : N] : (isch) ? ch : src_in[vf_q]
+
+/*@COMMON@*/
+#define H_STARTS_ENDS(NAME, KNOWN) void NAME(void) { ARB(s); VF_INPUT(unsigned char, c); VF_INPUT(char, ch); VF_INPUT(unsigned char, which); view_t h = view_of(&s), b = sp_empty(); _Bool cs = which == 2; \
+  __CPROVER_assume(which <= 2 && c <= N + 1 - cs); XBUF(char, src, (unsigned long)c + cs, N + 1); if (cs) CSTR_ASSUME(src_in, c, N + 1); NEEDLE(nd, 0, which == 1); \
+  _Bool st = nd.n <= h.n && sp_match_at(h, 0, nd.a, nd.n), en = nd.n <= h.n && sp_match_at(h, h.n - nd.n, nd.a, nd.n); \
+  KNOWN; _Bool rs = which == 0 ? s_starts_sv(&s, src, c) : which == 1 ? s_starts_ch(&s, ch) : s_starts_cstr(&s, src); \
+  _Bool re = which == 0 ? s_ends_sv(&s, src, c) : which == 1 ? s_ends_ch(&s, ch) : s_ends_cstr(&s, src); \
+  VF_ASSERT(rs == st, "C04: starts_with(sv | ch | char const*)"); VF_ASSERT(re == en, "C04: ends_with(sv | ch | char const*)"); UNCHANGED(s, h); VF_REACH(); }
+/*@GROUP name=starts_ends props=C04,C02 kind=K unwind=12 when=VF_N<=7@*/
+H_STARTS_ENDS(h_starts_ends, ((void)0))
+/*@GROUP name=starts_ends_u21 props=C04,C02 kind=K unwind=21 when=7<VF_N<=16@*/
+H_STARTS_ENDS(h_starts_ends_u21, ((void)0))
+/*@GROUP name=starts_ends_u36 props=C04,C02 kind=K unwind=36 when=VF_N>16 tier=thorough timeout=3000@*/
+H_STARTS_ENDS(h_starts_ends_u36, ((void)0))
+
+/*@COMMON@*/
+#define H_CONTAINS(NAME, KNOWN) void NAME(void) { ARB(s); VF_INPUT(unsigned char, c); VF_INPUT(char, ch); VF_INPUT(unsigned char, which); view_t h = view_of(&s), b = sp_empty(); _Bool cs = which == 2; \
+  __CPROVER_assume(which <= 2 && c <= N + 1 - cs); XBUF(char, src, (unsigned long)c + cs, N + 1); if (cs) CSTR_ASSUME(src_in, c, N + 1); NEEDLE(nd, 0, which == 1); \
+  KNOWN; _Bool r = which == 0 ? s_contains_sv(&s, src, c) : which == 1 ? s_contains_ch(&s, ch) : s_contains_cstr(&s, src); \
+  VF_ASSERT(r == (sp_find(h, nd.a, nd.n, 0) != NPOS), "C04: contains(sv | ch | char const*) == (find(x) != npos)"); UNCHANGED(s, h); VF_REACH(); }
+/*@GROUP name=contains props=C04,C02 kind=K unwind=12 when=VF_N<=7@*/
+H_CONTAINS(h_contains, VF_KNOWN(C04_find_empty_needle, nd.n == 0); VF_KNOWN(C04_find_overrun, sp_has_inner_nul(nd)))
+/*@GROUP name=contains_u21 props=C04,C02 kind=K unwind=21 when=7<VF_N<=16@*/
+H_CONTAINS(h_contains_u21, VF_KNOWN(C04_find_empty_needle, nd.n == 0); VF_KNOWN(C04_find_overrun, sp_has_inner_nul(nd)))
+/*@GROUP name=contains_u36 props=C04,C02 kind=K unwind=36 when=VF_N>16 tier=thorough timeout=3000@*/
+H_CONTAINS(h_contains_u36, VF_KNOWN(C04_find_empty_needle, nd.n == 0); VF_KNOWN(C04_find_overrun, sp_has_inner_nul(nd)))
+
+/*@COMMON@*/
+/* ---- searches ([string.find] ... [string.find.last.not.of]): every overload, pos over the whole size_type range (0, size, size + 1, npos included),
+ * needles of 0 .. N+1 characters (longer than the haystack included), exact-size buffers */
+
+/*@COMMON@*/
+#define H_FIND(NAME, KNOWN) void NAME(void) { ARB(s); ARB(t); VF_INPUT(unsigned long, pos); VF_INPUT(unsigned char, c); VF_INPUT(char, ch); VF_INPUT(unsigned char, which); view_t h = view_of(&s), b = view_of(&t); _Bool cs = which == 2; \
+  __CPROVER_assume(which <= 3 && c <= N + 1 - cs); XBUF(char, src, (unsigned long)c + cs, N + 1); if (cs) CSTR_ASSUME(src_in, c, N + 1); NEEDLE(nd, which == 0, which == 3); \
+  KNOWN; unsigned long r = which == 0 ? s_find_str(&s, &t, pos) : which == 1 ? s_find_ptr_n(&s, src, pos, c) : which == 2 ? s_find_cstr(&s, src, pos) : s_find_ch(&s, ch, pos); \
+  VF_ASSERT(r == sp_find(h, nd.a, nd.n, pos), "C04: find(str | s, pos, n | char const* | ch, pos): the lowest xpos >= pos with xpos + n <= size() and equal characters, else npos"); UNCHANGED(s, h); VF_REACH(); }
+/*@GROUP name=find props=C04,C02 kind=K unwind=12 when=VF_N<=7@*/
+H_FIND(h_find, VF_KNOWN(C04_find_overrun, sp_has_inner_nul(nd)))
+/*@GROUP name=find_u21 props=C04,C02 kind=K unwind=21 when=7<VF_N<=16@*/
+H_FIND(h_find_u21, VF_KNOWN(C04_find_overrun, sp_has_inner_nul(nd)))
+/*@GROUP name=find_u36 props=C04,C02 kind=K unwind=36 when=VF_N>16 tier=thorough timeout=3000@*/
+H_FIND(h_find_u36, VF_KNOWN(C04_find_overrun, sp_has_inner_nul(nd)))
+
+/*@COMMON@*/
+#define H_RFIND(NAME, KNOWN) void NAME(void) { ARB(s); ARB(t); VF_INPUT(unsigned long, pos); VF_INPUT(unsigned char, c); VF_INPUT(char, ch); VF_INPUT(unsigned char, which); view_t h = view_of(&s), b = view_of(&t); _Bool cs = which == 2; \
+  __CPROVER_assume(which <= 3 && c <= N + 1 - cs); XBUF(char, src, (unsigned long)c + cs, N + 1); if (cs) CSTR_ASSUME(src_in, c, N + 1); NEEDLE(nd, which == 0, which == 3); \
+  KNOWN; unsigned long r = which == 0 ? s_rfind_str(&s, &t, pos) : which == 1 ? (__CPROVER_assume(0), 0UL) : which == 2 ? s_rfind_cstr(&s, src, pos) : s_rfind_ch(&s, ch, pos); \
+  VF_ASSERT(r == sp_rfind(h, nd.a, nd.n, pos), "C04: rfind(str | char const* | ch, pos): the highest xpos <= pos with xpos + n <= size() and equal characters, else npos"); UNCHANGED(s, h); VF_REACH(); }
+/*@GROUP name=rfind props=C04,C02 kind=K unwind=12 when=VF_N<=7@*/
+H_RFIND(h_rfind, ((void)0))
+/*@GROUP name=rfind_u21 props=C04,C02 kind=K unwind=21 when=7<VF_N<=16@*/
+H_RFIND(h_rfind_u21, ((void)0))
+/*@GROUP name=rfind_u36 props=C04,C02 kind=K unwind=36 when=VF_N>16 tier=thorough timeout=3000@*/
+H_RFIND(h_rfind_u36, ((void)0))
+
+/*@COMMON@*/
+#define H_FIND_FIRST_OF(NAME, KNOWN) void NAME(void) { ARB(s); ARB(t); VF_INPUT(unsigned long, pos); VF_INPUT(unsigned char, c); VF_INPUT(char, ch); VF_INPUT(unsigned char, which); view_t h = view_of(&s), b = view_of(&t); _Bool cs = which == 2; \
+  __CPROVER_assume(which <= 4 && c <= N + 1 - cs); XBUF(char, src, (unsigned long)c + cs, N + 1); if (cs) CSTR_ASSUME(src_in, c, N + 1); NEEDLE(nd, which == 0, which == 3); \
+  KNOWN; unsigned long r = which == 0 ? s_ffo_str(&s, &t, pos) : which == 1 ? s_ffo_ptr_n(&s, src, pos, c) : which == 2 ? s_ffo_cstr(&s, src, pos) : which == 3 ? s_ffo_ch(&s, ch, pos) : s_ffo_sv(&s, src, c, pos); \
+  VF_ASSERT(r == sp_ffo(h, nd.a, nd.n, pos, 0), "C04: find_first_of(str | s, pos, n | char const* | ch | sv, pos): the lowest xpos >= pos whose character is in the set, else npos"); UNCHANGED(s, h); VF_REACH(); }
+/*@GROUP name=find_first_of props=C04,C02 kind=K unwind=12 when=VF_N<=7@*/
+H_FIND_FIRST_OF(h_find_first_of, ((void)0))
+/*@GROUP name=find_first_of_u21 props=C04,C02 kind=K unwind=21 when=7<VF_N<=16@*/
+H_FIND_FIRST_OF(h_find_first_of_u21, ((void)0))
+/*@GROUP name=find_first_of_u36 props=C04,C02 kind=K unwind=36 when=VF_N>16 tier=thorough timeout=3000@*/
+H_FIND_FIRST_OF(h_find_first_of_u36, ((void)0))
+
+/*@COMMON@*/
+#define H_FIND_FIRST_NOT_OF(NAME, KNOWN) void NAME(void) { ARB(s); ARB(t); VF_INPUT(unsigned long, pos); VF_INPUT(unsigned char, c); VF_INPUT(char, ch); VF_INPUT(unsigned char, which); view_t h = view_of(&s), b = view_of(&t); _Bool cs = which == 2; \
+  __CPROVER_assume(which <= 3 && c <= N + 1 - cs); XBUF(char, src, (unsigned long)c + cs, N + 1); if (cs) CSTR_ASSUME(src_in, c, N + 1); NEEDLE(nd, which == 0, which == 3); \
+  KNOWN; unsigned long r = which == 0 ? s_ffno_str(&s, &t, pos) : which == 1 ? s_ffno_ptr_n(&s, src, pos, c) : which == 2 ? s_ffno_cstr(&s, src, pos) : s_ffno_ch(&s, ch, pos); \
+  VF_ASSERT(r == sp_ffo(h, nd.a, nd.n, pos, 1), "C04: find_first_not_of(str | s, pos, n | char const* | ch, pos): the lowest xpos >= pos whose character is not in the set, else npos"); UNCHANGED(s, h); VF_REACH(); }
+/*@GROUP name=find_first_not_of props=C04,C02 kind=K unwind=12 when=VF_N<=7@*/
+H_FIND_FIRST_NOT_OF(h_find_first_not_of, ((void)0))
+/*@GROUP name=find_first_not_of_u21 props=C04,C02 kind=K unwind=21 when=7<VF_N<=16@*/
+H_FIND_FIRST_NOT_OF(h_find_first_not_of_u21, ((void)0))
+/*@GROUP name=find_first_not_of_u36 props=C04,C02 kind=K unwind=36 when=VF_N>16 tier=thorough timeout=3000@*/
+H_FIND_FIRST_NOT_OF(h_find_first_not_of_u36, ((void)0))
+
+/*@COMMON@*/
+#define H_FIND_LAST_OF(NAME, KNOWN) void NAME(void) { ARB(s); ARB(t); VF_INPUT(unsigned long, pos); VF_INPUT(unsigned char, c); VF_INPUT(char, ch); VF_INPUT(unsigned char, which); view_t h = view_of(&s), b = view_of(&t); _Bool cs = which == 2; \
+  __CPROVER_assume(which <= 3 && c <= N + 1 - cs); XBUF(char, src, (unsigned long)c + cs, N + 1); if (cs) CSTR_ASSUME(src_in, c, N + 1); NEEDLE(nd, which == 0, which == 3); \
+  KNOWN; unsigned long r = which == 0 ? s_flo_str(&s, &t, pos) : which == 1 ? s_flo_ptr_n(&s, src, pos, c) : which == 2 ? s_flo_cstr(&s, src, pos) : s_flo_ch(&s, ch, pos); \
+  VF_ASSERT(r == sp_flo(h, nd.a, nd.n, pos, 0), "C04: find_last_of(str | s, pos, n | char const* | ch, pos): the highest xpos <= pos, xpos < size(), whose character is in the set, else npos"); UNCHANGED(s, h); VF_REACH(); }
+/*@GROUP name=find_last_of props=C04,C02 kind=K unwind=12 when=VF_N<=7@*/
+H_FIND_LAST_OF(h_find_last_of, VF_KNOWN(C04_find_last_empty, h.n == 0))
+/*@GROUP name=find_last_of_u21 props=C04,C02 kind=K unwind=21 when=7<VF_N<=16@*/
+H_FIND_LAST_OF(h_find_last_of_u21, VF_KNOWN(C04_find_last_empty, h.n == 0))
+/*@GROUP name=find_last_of_u36 props=C04,C02 kind=K unwind=36 when=VF_N>16 tier=thorough timeout=3000@*/
+H_FIND_LAST_OF(h_find_last_of_u36, VF_KNOWN(C04_find_last_empty, h.n == 0))
+
+/*@COMMON@*/
+#define H_FIND_LAST_NOT_OF(NAME, KNOWN) void NAME(void) { ARB(s); ARB(t); VF_INPUT(unsigned long, pos); VF_INPUT(unsigned char, c); VF_INPUT(char, ch); VF_INPUT(unsigned char, which); view_t h = view_of(&s), b = view_of(&t); _Bool cs = which == 2; \
+  __CPROVER_assume(which <= 3 && c <= N + 1 - cs); XBUF(char, src, (unsigned long)c + cs, N + 1); if (cs) CSTR_ASSUME(src_in, c, N + 1); NEEDLE(nd, which == 0, which == 3); \
+  KNOWN; unsigned long r = which == 0 ? s_flno_str(&s, &t, pos) : which == 1 ? s_flno_ptr_n(&s, src, pos, c) : which == 2 ? s_flno_cstr(&s, src, pos) : s_flno_ch(&s, ch, pos); \
+  VF_ASSERT(r == sp_flo(h, nd.a, nd.n, pos, 1), "C04: find_last_not_of(str | s, pos, n | char const* | ch, pos): the highest xpos <= pos, xpos < size(), whose character is not in the set, else npos"); UNCHANGED(s, h); VF_REACH(); }
+/*@GROUP name=find_last_not_of props=C04,C02 kind=K unwind=12 when=VF_N<=7@*/
+H_FIND_LAST_NOT_OF(h_find_last_not_of, VF_KNOWN(C04_find_last_empty, h.n == 0))
+/*@GROUP name=find_last_not_of_u21 props=C04,C02 kind=K unwind=21 when=7<VF_N<=16@*/
+H_FIND_LAST_NOT_OF(h_find_last_not_of_u21, VF_KNOWN(C04_find_last_empty, h.n == 0))
+/*@GROUP name=find_last_not_of_u36 props=C04,C02 kind=K unwind=36 when=VF_N>16 tier=thorough timeout=3000@*/
+H_FIND_LAST_NOT_OF(h_find_last_not_of_u36, VF_KNOWN(C04_find_last_empty, h.n == 0))
